@@ -528,3 +528,1396 @@ Proof.
   - split; [apply div_nonneg; nia|]. apply Z.div_le_upper_bound; [lia|]. nia.
   - intros Hlt Hpos. apply Z.div_lt_upper_bound; [lia|]. nia.
 Qed.
+
+(** ################################################################## PART B *)
+(** ================================================================== Part B: ledger algebra *)
+Lemma tot_cons f h t d L : tot f ((h, t, d) :: L) = (if f h t then d else 0) + tot f L.
+Proof. reflexivity. Qed.
+
+Lemma bal_cons h0 t0 d L h t :
+  bal ((h0, t0, d) :: L) h t = (if (h0 =? h) && (t0 =? t) then d else 0) + bal L h t.
+Proof. reflexivity. Qed.
+
+Lemma debit_ok L h t a L' : debit L h t a = Ok L' -> a <= bal L h t /\ L' = (h, t, - a) :: L.
+Proof.
+  unfold debit. intros H. case_if H E. apply Z.leb_le in E. inversion H. auto.
+Qed.
+
+Lemma s_debit_ok s h t a s' :
+  s_debit s h t a = Ok s' -> a <= bal (l_led s) h t /\ s' = set_led s ((h, t, - a) :: l_led s).
+Proof.
+  unfold s_debit. intros H. apply bind_ok in H. destruct H as (L & HL & H). inversion H; subst.
+  apply debit_ok in HL. destruct HL as [H1 ->]. auto.
+Qed.
+
+Lemma tl_sub_ok s u a s' :
+  tl_sub s u a = Ok s' -> a <= tl_of s u /\ s' = set_tl s ((u, 0, - a) :: l_tl s).
+Proof.
+  unfold tl_sub. intros H. apply bind_ok in H. destruct H as (x & Hx & H). inversion H; subst.
+  apply sub_chk_ok in Hx. unfold credit. split; [lia | reflexivity].
+Qed.
+
+(** pointwise non-negative balances give non-negative totals over any class of (holder, token) *)
+Lemma tot_filter_key f h t L :
+  tot f L = (if f h t then bal L h t else 0)
+            + tot f (filter (fun x => negb ((fst (fst x) =? h) && (snd (fst x) =? t))) L).
+Proof.
+  induction L as [|[[h0 t0] d] r IH]; [simpl; destruct (f h t); reflexivity|].
+  rewrite tot_cons, bal_cons. cbn [filter fst snd].
+  destruct ((h0 =? h) && (t0 =? t)) eqn:E; cbn [negb].
+  - apply andb_prop in E. destruct E as [E1 E2]. apply Z.eqb_eq in E1, E2. subst h0 t0.
+    rewrite IH. destruct (f h t); lia.
+  - rewrite tot_cons. rewrite IH. destruct (f h t); destruct (f h0 t0); lia.
+Qed.
+
+Lemma bal_filter_key h t L h' t' :
+  bal (filter (fun x => negb ((fst (fst x) =? h) && (snd (fst x) =? t))) L) h' t'
+  = if (h =? h') && (t =? t') then 0 else bal L h' t'.
+Proof.
+  induction L as [|[[h0 t0] d] r IH]; [simpl; destruct ((h =? h') && (t =? t')); reflexivity|].
+  cbn [filter fst snd]. rewrite bal_cons.
+  destruct ((h0 =? h) && (t0 =? t)) eqn:E; cbn [negb].
+  - rewrite IH. apply andb_prop in E. destruct E as [E1 E2]. apply Z.eqb_eq in E1, E2. subst h0 t0.
+    destruct ((h =? h') && (t =? t')); lia.
+  - rewrite bal_cons, IH.
+    destruct ((h =? h') && (t =? t')) eqn:E2; [|reflexivity].
+    apply andb_prop in E2. destruct E2 as [E3 E4]. apply Z.eqb_eq in E3, E4. subst h' t'.
+    rewrite E. reflexivity.
+Qed.
+
+Lemma filter_length_le {A} (p : A -> bool) l : (length (filter p l) <= length l)%nat.
+Proof. induction l as [|a t IH]; simpl; [lia|]. destruct (p a); simpl; lia. Qed.
+
+Lemma tot_nonneg_n n : forall L f, (length L <= n)%nat -> (forall h t, 0 <= bal L h t) -> 0 <= tot f L.
+Proof.
+  induction n as [|n IH]; intros L f Hlen Hnn.
+  - destruct L; [simpl; lia | simpl in Hlen; lia].
+  - destruct L as [|[[h t] d] r]; [simpl; lia|].
+    rewrite (tot_filter_key f h t).
+    set (L' := filter _ ((h, t, d) :: r)).
+    assert (Hl : (length L' <= n)%nat).
+    { unfold L'. cbn [filter fst snd]. rewrite !Z.eqb_refl. cbn [andb negb].
+      pose proof (filter_length_le (fun x : Z * Z * Z => negb ((fst (fst x) =? h) && (snd (fst x) =? t))) r).
+      simpl in Hlen. lia. }
+    assert (Hn' : forall h' t', 0 <= bal L' h' t').
+    { intros h' t'. unfold L'. rewrite bal_filter_key. destruct ((h =? h') && (t =? t')); [lia | apply Hnn]. }
+    specialize (IH L' f Hl Hn'). pose proof (Hnn h t). destruct (f h t); lia.
+Qed.
+
+Lemma tot_nonneg L f : (forall h t, 0 <= bal L h t) -> 0 <= tot f L.
+Proof. apply (tot_nonneg_n (length L)). lia. Qed.
+
+Lemma tot_split f g L : tot f L = tot (fun h t => f h t && g h t) L + tot (fun h t => f h t && negb (g h t)) L.
+Proof.
+  induction L as [|[[h t] d] r IH]; [reflexivity|]. rewrite !tot_cons, IH.
+  destruct (f h t), (g h t); simpl; lia.
+Qed.
+
+Lemma tot_ext f g L : (forall h t, f h t = g h t) -> tot f L = tot g L.
+Proof. intros E. induction L as [|[[h t] d] r IH]; [reflexivity|]. rewrite !tot_cons, IH, E. reflexivity. Qed.
+
+(** a class contained in another has the smaller total *)
+Lemma tot_le f g L : (forall h t, 0 <= bal L h t) -> (forall h t, f h t = true -> g h t = true) ->
+  tot f L <= tot g L.
+Proof.
+  intros Hnn Hsub. rewrite (tot_split g f L).
+  assert (E : tot (fun h t => g h t && f h t) L = tot f L).
+  { apply tot_ext. intros h t. destruct (f h t) eqn:Ef; [rewrite (Hsub h t Ef); reflexivity | apply andb_false_r]. }
+  rewrite E. pose proof (tot_nonneg L (fun h t => g h t && negb (f h t)) Hnn). lia.
+Qed.
+
+(** ------------------------------------------------------------------ queue sums *)
+Definition qsum (f : uentry -> Z) (q : list uentry) : Z := fold_right (fun en acc => f en + acc) 0 q.
+
+Lemma qsum_app f q1 q2 : qsum f (q1 ++ q2) = qsum f q1 + qsum f q2.
+Proof. induction q1 as [|a t IH]; simpl; [reflexivity | rewrite IH; lia]. Qed.
+
+Lemma qsum_remove f q c en : q_first q c = Some en -> qsum f (q_remove_first q c) = qsum f q - f en.
+Proof.
+  induction q as [|a t IH]; simpl; [discriminate|].
+  destruct (en_user a =? c); intros H.
+  - inversion H; subst. lia.
+  - simpl. rewrite IH by assumption. lia.
+Qed.
+
+Lemma q_first_in q c en : q_first q c = Some en -> In en q /\ en_user en = c.
+Proof.
+  induction q as [|a t IH]; simpl; [discriminate|].
+  destruct (en_user a =? c) eqn:E; intros H.
+  - inversion H; subst. apply Z.eqb_eq in E. auto.
+  - destruct (IH H). auto.
+Qed.
+
+Lemma forall_remove (P : uentry -> Prop) q c : Forall P q -> Forall P (q_remove_first q c).
+Proof.
+  induction q as [|a t IH]; simpl; intros H; [constructor|].
+  inversion H; subst. destruct (en_user a =? c); [assumption | constructor; auto].
+Qed.
+
+Lemma remove_length q c en : q_first q c = Some en -> S (length (q_remove_first q c)) = length q.
+Proof.
+  induction q as [|a t IH]; simpl; [discriminate|].
+  destruct (en_user a =? c); intros H; [reflexivity | simpl; rewrite IH by assumption; reflexivity].
+Qed.
+
+(** ------------------------------------------------------------------ the invariant *)
+Definition entry_ok (en : uentry) : Prop :=
+  0 < en_un en <= en_lk en /\ 0 < en_epoch en /\ en_user en <> UNSTAKE.
+
+Definition lk_at (e : Z) (en : uentry) : Z := if en_epoch en =? e then en_lk en else 0.
+
+Record Inv (b0 : Z) (s : lst) : Prop := {
+  i_opts : wf_opts (opts s);
+  i_cfg : 0 <= c_burn (l_cfg s) <= MAXPU /\ 0 <= c_unbond (l_cfg s) /\ 0 <= l_now s;
+  i_nonneg : forall h t, 0 <= bal (l_led s) h t;
+  (* escrow: the unstake contract holds exactly what its queues record *)
+  i_esc_base : bal (l_led s) UNSTAKE 0 = qsum en_un (l_q s);
+  i_esc_lk : forall e, 0 < e -> bal (l_led s) UNSTAKE e = qsum (lk_at e) (l_q s);
+  i_esc_tot : held_locked s UNSTAKE = qsum en_lk (l_q s);
+  i_entries : Forall entry_ok (l_q s);
+  (* energy bookkeeping: total_locked_tokens of a user = LOCKED it holds *)
+  i_tl : forall u, u <> UNSTAKE -> tl_of s u = held_locked s u;
+  (* supply ledger *)
+  i_supply : g_bmint (l_g s) + locked_supply s - qsum en_un (l_q s) + g_penburn (l_g s) + l_fees s
+             = g_bburn_lock (l_g s) + g_bburn_cancel (l_g s) + g_emit (l_g s);
+  i_base : base_supply s = b0 + g_bmint (l_g s) - g_bburn_lock (l_g s) - g_bburn_cancel (l_g s);
+  i_locked : locked_supply s = g_lmint (l_g s) - g_lburn (l_g s);
+  i_pos : 0 <= g_penburn (l_g s) /\ 0 <= l_fees s
+}.
+
+(** normalise projections of explicitly built states *)
+Ltac red_state :=
+  cbn [l_cfg l_now l_led l_tl l_q l_fees l_g set_cfg set_now set_led set_tl set_q set_fees set_g
+       s_credit tl_add credit opts paused c_opts c_unbond c_burn c_paused
+       g_bmint g_bburn_lock g_bburn_cancel g_lmint g_lburn g_penburn g_emit
+       g_add_bmint g_add_bburn_lock g_add_bburn_cancel g_add_lmint g_add_lburn g_add_penburn g_add_emit
+       en_user en_release en_epoch en_lk en_un] in *.
+
+Ltac led_norm :=
+  unfold base_supply, locked_supply, held_locked, tl_of, s_credit, tl_add, credit in *; red_state;
+  repeat rewrite bal_cons in *; repeat rewrite tot_cons in *; unfold is_base, is_locked in *.
+
+(** decide every comparison that occurs in the goal, then linear arithmetic *)
+Ltac case_cmp :=
+  repeat match goal with
+  | |- context[?a =? ?b] => destruct (Z.eqb_spec a b)
+  | |- context[?a <? ?b] => destruct (Z.ltb_spec a b)
+  | |- context[?a <=? ?b] => destruct (Z.leb_spec a b)
+  end; cbn [andb orb negb]; cbv iota.
+
+Ltac solve_lin := case_cmp; subst; try lia.
+
+Ltac prep_bools :=
+  repeat match goal with
+  | H : (_ && _) = true |- _ => apply andb_prop in H; destruct H
+  | H : is_user _ = true |- _ => unfold is_user in H
+  | H : negb _ = true |- _ => apply negb_true_iff in H
+  | H : (_ =? _) = true |- _ => apply Z.eqb_eq in H
+  | H : (_ =? _) = false |- _ => apply Z.eqb_neq in H
+  | H : (_ <? _) = true |- _ => apply Z.ltb_lt in H
+  | H : (_ <? _) = false |- _ => apply Z.ltb_ge in H
+  | H : (_ <=? _) = true |- _ => apply Z.leb_le in H
+  | H : (_ <=? _) = false |- _ => apply Z.leb_gt in H
+  end.
+
+Ltac fin := led_norm; repeat rewrite qsum_app; cbn [qsum fold_right]; unfold lk_at in *; red_state; solve_lin.
+
+(** ------------------------------------------------------------------ normal forms of the endpoints:
+    the guards that passed and the resulting state, written out *)
+Lemma ep_lock_nf s c amt le dest s' o : ep_lock s c amt le dest = Ok (s', o) ->
+  let unlock := start_of_month (l_now s + le) in
+  c <> UNSTAKE /\ dest <> UNSTAKE /\ paused s = false /\ is_listed (opts s) le = true /\ 0 < amt /\
+  amt <= bal (l_led s) c 0 /\ l_now s < unlock /\ o = [unlock; amt] /\
+  s' = set_g (set_led (set_tl s ((dest, 0, amt) :: l_tl s)) ((dest, unlock, amt) :: (c, 0, - amt) :: l_led s))
+             (g_add_bburn_lock (g_add_lmint (l_g s) amt) amt).
+Proof.
+  intros H. unfold ep_lock in H.
+  case_if H Eu. case_if H Ep. case_if H El. case_if H Ea.
+  apply bind_ok in H. destruct H as (s1 & Hd & H). cbv zeta in H. case_if H En.
+  inversion H; subst; clear H.
+  apply s_debit_ok in Hd. destruct Hd as [Hle ->]. prep_bools. cbv zeta.
+  repeat split; auto.
+Qed.
+
+Lemma ep_lock_inv b0 s c amt le dest s' o :
+  Inv b0 s -> ep_lock s c amt le dest = Ok (s', o) -> Inv b0 s'.
+Proof.
+  intros HI H. apply ep_lock_nf in H. cbv zeta in H.
+  set (unlock := start_of_month (l_now s + le)) in *. clearbody unlock.
+  destruct H as (Hc & Hd & Hp & Hl & Ha & Hle & Hn & _ & ->).
+  destruct HI as [Io Ic Inn Ieb Iel Iet Ien Itl Isu Iba Ilo Ipo].
+  constructor; try assumption.
+  - intros h t. pose proof (Inn h t). pose proof (Inn c 0). fin.
+  - fin.
+  - intros e He. pose proof (Iel e He). fin.
+  - fin.
+  - intros u Hu. pose proof (Itl u Hu). fin.
+  - fin.
+  - fin.
+  - fin.
+Qed.
+
+Lemma ep_extend_nf s c e amt le s' o : ep_extend s c e amt le = Ok (s', o) ->
+  let unlock := start_of_month (l_now s + le) in
+  c <> UNSTAKE /\ paused s = false /\ is_listed (opts s) le = true /\ 0 < e /\ 0 < amt /\
+  amt <= bal (l_led s) c e /\ l_now s < unlock /\ e < unlock /\ amt <= tl_of s c /\ o = [unlock; amt] /\
+  s' = set_g (set_led (set_tl s ((c, 0, amt) :: (c, 0, - amt) :: l_tl s)) ((c, unlock, amt) :: (c, e, - amt) :: l_led s))
+             (g_add_lburn (g_add_lmint (l_g s) amt) amt).
+Proof.
+  intros H. unfold ep_extend in H.
+  case_if H Eu. case_if H Ep. case_if H El. case_if H Ea.
+  apply bind_ok in H. destruct H as (s1 & Hd & H). cbv zeta in H. case_if H En. case_if H Ee.
+  apply bind_ok in H. destruct H as (s2 & Ht & H).
+  inversion H; subst; clear H.
+  apply s_debit_ok in Hd. destruct Hd as [Hle ->].
+  apply tl_sub_ok in Ht. destruct Ht as [Htl ->]. prep_bools. cbv zeta.
+  repeat split; auto.
+Qed.
+
+Lemma ep_extend_inv b0 s c e amt le s' o :
+  Inv b0 s -> ep_extend s c e amt le = Ok (s', o) -> Inv b0 s'.
+Proof.
+  intros HI H. apply ep_extend_nf in H. cbv zeta in H.
+  set (unlock := start_of_month (l_now s + le)) in *. clearbody unlock.
+  destruct H as (Hc & Hp & Hl & He0 & Ha & Hle & Hn & Hlt & Htl & _ & ->).
+  destruct HI as [Io Ic Inn Ieb Iel Iet Ien Itl Isu Iba Ilo Ipo].
+  constructor; try assumption.
+  - intros h t. pose proof (Inn h t). pose proof (Inn c e). fin.
+  - fin.
+  - intros e' He'. pose proof (Iel e' He'). fin.
+  - fin.
+  - intros u Hu. pose proof (Itl u Hu). fin.
+  - fin.
+  - fin.
+  - fin.
+Qed.
+
+Lemma ep_lock_virtual_nf s c amt le dest s' o : ep_lock_virtual s c amt le dest = Ok (s', o) ->
+  let unlock := start_of_month (l_now s + le) in
+  dest <> UNSTAKE /\ paused s = false /\ is_listed (opts s) le = true /\ 0 < amt /\ c = WLSC /\
+  l_now s < unlock /\ o = [unlock; amt] /\
+  s' = set_g (set_led (set_tl s ((dest, 0, amt) :: l_tl s)) ((dest, unlock, amt) :: l_led s))
+             (g_add_emit (g_add_lmint (l_g s) amt) amt).
+Proof.
+  intros H. unfold ep_lock_virtual in H.
+  case_if H Eu. case_if H Ep. case_if H Ea. case_if H El. case_if H Ec. cbv zeta in H. case_if H En.
+  inversion H; subst; clear H. prep_bools. cbv zeta. repeat split; auto.
+Qed.
+
+Lemma ep_lock_virtual_inv b0 s c amt le dest s' o :
+  Inv b0 s -> ep_lock_virtual s c amt le dest = Ok (s', o) -> Inv b0 s'.
+Proof.
+  intros HI H. apply ep_lock_virtual_nf in H. cbv zeta in H.
+  set (unlock := start_of_month (l_now s + le)) in *. clearbody unlock.
+  destruct H as (Hd & Hp & Hl & Ha & Hc & Hn & _ & ->).
+  destruct HI as [Io Ic Inn Ieb Iel Iet Ien Itl Isu Iba Ilo Ipo].
+  constructor; try assumption.
+  - intros h t. pose proof (Inn h t). fin.
+  - fin.
+  - intros e' He'. pose proof (Iel e' He'). fin.
+  - fin.
+  - intros u Hu. pose proof (Itl u Hu). fin.
+  - fin.
+  - fin.
+  - fin.
+Qed.
+
+Lemma unlock_one_nf s c e amt s' : unlock_one s c (e, amt) = Ok s' ->
+  0 < e /\ 0 < amt /\ amt <= bal (l_led s) c e /\ e <= l_now s /\ amt <= tl_of s c /\
+  s' = set_g (set_led (set_tl s ((c, 0, - amt) :: l_tl s)) ((c, 0, amt) :: (c, e, - amt) :: l_led s))
+             (g_add_bmint (g_add_lburn (l_g s) amt) amt).
+Proof.
+  intros H. unfold unlock_one in H. case_if H Ea.
+  apply bind_ok in H. destruct H as (s0 & Hd & H). case_if H Ee.
+  apply bind_ok in H. destruct H as (s1 & Ht & H). inversion H; subst; clear H.
+  apply s_debit_ok in Hd. destruct Hd as [Hle ->].
+  apply tl_sub_ok in Ht. destruct Ht as [Htl ->]. prep_bools. repeat split; auto.
+Qed.
+
+Lemma unlock_one_inv b0 s c p s' : c <> UNSTAKE -> Inv b0 s -> unlock_one s c p = Ok s' -> Inv b0 s'.
+Proof.
+  intros Hc HI H. destruct p as [e amt]. apply unlock_one_nf in H.
+  destruct H as (He & Ha & Hle & Hn & Htl & ->).
+  destruct HI as [Io Ic Inn Ieb Iel Iet Ien Itl Isu Iba Ilo Ipo].
+  constructor; try assumption.
+  - intros h t. pose proof (Inn h t). pose proof (Inn c e). fin.
+  - fin.
+  - intros e' He'. pose proof (Iel e' He'). fin.
+  - fin.
+  - intros u Hu. pose proof (Itl u Hu). fin.
+  - fin.
+  - fin.
+  - fin.
+Qed.
+
+Lemma unlock_all_inv b0 ps : forall s c s', c <> UNSTAKE -> Inv b0 s -> unlock_all s c ps = Ok s' -> Inv b0 s'.
+Proof.
+  induction ps as [|p t IH]; intros s c s' Hc HI H; simpl in H.
+  - inversion H; subst. exact HI.
+  - apply bind_ok in H. destruct H as (s1 & H1 & H).
+    apply (IH s1 c s' Hc); [eapply unlock_one_inv; eauto | exact H].
+Qed.
+
+Lemma ep_unlock_inv b0 s c ps s' o : Inv b0 s -> ep_unlock s c ps = Ok (s', o) -> Inv b0 s'.
+Proof.
+  intros HI H. unfold ep_unlock in H. case_if H Eu. case_if H Ep. case_if H En.
+  apply bind_ok in H. destruct H as (s1 & H1 & H). inversion H; subst; clear H.
+  prep_bools. eapply unlock_all_inv; eauto.
+Qed.
+
+Lemma ghost_ext a b :
+  g_bmint a = g_bmint b -> g_bburn_lock a = g_bburn_lock b -> g_bburn_cancel a = g_bburn_cancel b ->
+  g_lmint a = g_lmint b -> g_lburn a = g_lburn b -> g_penburn a = g_penburn b -> g_emit a = g_emit b -> a = b.
+Proof. destruct a, b; simpl; intros; subst; reflexivity. Qed.
+
+Lemma lst_ext a b :
+  l_cfg a = l_cfg b -> l_now a = l_now b -> l_led a = l_led b -> l_tl a = l_tl b -> l_q a = l_q b ->
+  l_fees a = l_fees b -> l_g a = l_g b -> a = b.
+Proof. destruct a, b; simpl; intros; subst; reflexivity. Qed.
+
+(** reduce_lock_period_common *)
+Lemma reduce_common_nf s c e amt nl s1 un new_lock : reduce_common s c e amt nl = Ok (s1, un, new_lock) ->
+  paused s = false /\ l_now s < e /\
+  new_lock = match nl with
+             | Some le => le - (l_now s + le - start_of_month (l_now s + le))
+             | None => 0
+             end /\
+  new_lock < e - l_now s /\ amt <= tl_of s c /\ 0 < amt /\
+  exists pen, penalty_amount (opts s) amt (e - l_now s) new_lock = Ok pen /\ pen < amt /\ un = amt - pen /\
+              s1 = set_tl s ((c, 0, - amt) :: l_tl s).
+Proof.
+  intros H. unfold reduce_common in H. case_if H Ep. case_if H En. cbv zeta in H. case_if H El.
+  apply bind_ok in H. destruct H as (s2 & Ht & H).
+  apply bind_ok in H. destruct H as (pen & Hpen & H).
+  case_if H Ea. case_if H Epa. inversion H; subst; clear H.
+  apply tl_sub_ok in Ht. destruct Ht as [Htl ->]. prep_bools.
+  repeat split; auto. exists pen. repeat split; auto.
+Qed.
+
+Lemma ep_unlock_early_nf s c e amt s' o : ep_unlock_early s c e amt = Ok (s', o) ->
+  c <> UNSTAKE /\ paused s = false /\ 0 < e /\ 0 < amt /\ amt <= bal (l_led s) c e /\ l_now s < e /\
+  amt <= tl_of s c /\ o = [] /\
+  exists pen, penalty_amount (opts s) amt (e - l_now s) 0 = Ok pen /\ pen < amt /\
+    s' = set_q (set_g (set_led (set_tl s ((c, 0, - amt) :: l_tl s))
+                                ((UNSTAKE, 0, amt - pen) :: (UNSTAKE, e, amt) :: (c, e, - amt) :: l_led s))
+                       (g_add_bmint (l_g s) (amt - pen)))
+               (l_q s ++ [mkE c (l_now s + c_unbond (l_cfg s)) e amt (amt - pen)]).
+Proof.
+  intros H. unfold ep_unlock_early in H. case_if H Eu. case_if H Ep. case_if H Ea.
+  apply bind_ok in H. destruct H as (s0 & Hd & H).
+  apply bind_ok in H. destruct H as ([[s1 un] nl] & Hr & H). inversion H; subst; clear H.
+  apply s_debit_ok in Hd. destruct Hd as [Hle ->].
+  apply reduce_common_nf in Hr. red_state.
+  destruct Hr as (_ & Hn & -> & _ & Htl & _ & pen & Hpen & Hlt & -> & ->). prep_bools.
+  repeat split; auto. exists pen. repeat split; auto.
+Qed.
+
+Lemma ep_unlock_early_inv b0 s c e amt s' o :
+  Inv b0 s -> ep_unlock_early s c e amt = Ok (s', o) -> Inv b0 s'.
+Proof.
+  intros HI H. apply ep_unlock_early_nf in H.
+  destruct H as (Hc & Hp & He & Ha & Hle & Hn & Htl & _ & pen & Hpen & Hlt & ->).
+  pose proof HI as [Io Ic Inn Ieb Iel Iet Ien Itl Isu Iba Ilo Ipo].
+  destruct (pen_amount (opts s) amt (e - l_now s) 0 pen Io ltac:(lia) ltac:(lia) Hpen) as (pct & _ & _ & _ & Hpr & _).
+  constructor; try assumption.
+  - intros h t. pose proof (Inn h t). pose proof (Inn c e). fin.
+  - fin.
+  - intros e' He'. pose proof (Iel e' He'). fin.
+  - fin.
+  - red_state. apply Forall_app. split; [exact Ien|]. constructor; [|constructor].
+    unfold entry_ok. red_state. lia.
+  - intros u Hu. pose proof (Itl u Hu). fin.
+  - fin.
+  - fin.
+  - fin.
+Qed.
+
+(** burn_penalty *)
+Lemma burn_penalty_nf s pen s' : burn_penalty s pen = Ok s' ->
+  0 <= c_burn (l_cfg s) <= MAXPU -> 0 <= pen ->
+  exists b, is_floor b (pen * c_burn (l_cfg s)) MAXPU /\ 0 <= b <= pen /\
+    s' = set_fees (set_g s (g_add_penburn (g_add_lburn (l_g s) pen) b)) (l_fees s + (pen - b)).
+Proof.
+  intros H Hb Hp. unfold burn_penalty, split_penalty in H. cbv zeta in H.
+  apply bind_ok in H. destruct H as ([b rest] & Hs & H). inversion H; subst; clear H.
+  apply bind_ok in Hs. destruct Hs as (r & Hr & Hs). inversion Hs; subst; clear Hs.
+  apply sub_chk_ok in Hr. destruct Hr as [Hle ->].
+  pose proof MAXPU_pos as HM.
+  exists (pen * c_burn (l_cfg s) / MAXPU). split; [apply is_floor_div; exact HM|].
+  split; [split; [apply div_nonneg; nia | exact Hle]|]. reflexivity.
+Qed.
+
+Lemma split_le pen burn : 0 <= pen -> 0 <= burn <= MAXPU -> pen * burn / MAXPU <= pen.
+Proof. intros. pose proof MAXPU_pos. apply Z.div_le_upper_bound; [lia | nia]. Qed.
+
+Lemma ep_reduce_nf s c e amt le s' o : ep_reduce s c e amt le = Ok (s', o) ->
+  0 <= c_burn (l_cfg s) <= MAXPU -> wf_opts (opts s) -> 0 <= l_now s ->
+  let new_unlock := start_of_month (l_now s + le) in
+  c <> UNSTAKE /\ paused s = false /\ is_listed (opts s) le = true /\ 0 < e /\ 0 < amt /\
+  amt <= bal (l_led s) c e /\ l_now s < e /\ amt <= tl_of s c /\ l_now s < new_unlock /\ new_unlock < e /\
+  exists pen b, penalty_amount (opts s) amt (e - l_now s) (new_unlock - l_now s) = Ok pen /\ 0 <= pen < amt /\
+    is_floor b (pen * c_burn (l_cfg s)) MAXPU /\ 0 <= b <= pen /\
+    o = [new_unlock; amt - pen] /\
+    s' = set_led (set_tl (set_fees (set_g s (g_add_penburn (g_add_lburn (g_add_lburn (g_add_lmint (l_g s) (amt - pen)) (amt - pen)) pen) b))
+                                   (l_fees s + (pen - b)))
+                         ((c, 0, amt - pen) :: (c, 0, - amt) :: l_tl s))
+                 ((c, new_unlock, amt - pen) :: (c, e, - amt) :: l_led s).
+Proof.
+  intros H Hb Hwf Hnow. unfold ep_reduce in H. case_if H Eu. case_if H Ep. case_if H El. case_if H Ea.
+  apply bind_ok in H. destruct H as (s0 & Hd & H).
+  apply bind_ok in H. destruct H as ([[s1 un] nl] & Hr & H). cbv zeta in H.
+  apply bind_ok in H. destruct H as (pen' & Hp' & H). case_if H Enu.
+  apply bind_ok in H. destruct H as (burned & Hbu & H).
+  apply bind_ok in H. destruct H as (s3 & Hs3 & H). inversion H; subst; clear H.
+  apply s_debit_ok in Hd. destruct Hd as [Hle ->].
+  apply reduce_common_nf in Hr. red_state.
+  destruct Hr as (_ & Hn & Hnl & Hlt & Htl & _ & pen & Hpen & Hplt & -> & ->). prep_bools.
+  apply sub_chk_ok in Hp'. destruct Hp' as [_ ->]. apply sub_chk_ok in Hbu. destruct Hbu as [_ ->].
+  red_state.
+  assert (Hnu : l_now s + nl = start_of_month (l_now s + le)) by lia.
+  rewrite Hnu in *. clear Hnl.
+  assert (Hnl : nl = start_of_month (l_now s + le) - l_now s) by lia. subst nl.
+  unfold tl_of in *. red_state.
+  assert (Hn0 : 0 <= start_of_month (l_now s + le) - l_now s) by lia.
+  assert (Ha0 : 0 <= amt) by lia.
+  destruct (pen_amount (opts s) amt (e - l_now s) (start_of_month (l_now s + le) - l_now s) pen Hwf Hn0 Ha0 Hpen) as (pct & _ & _ & _ & Hpr & _).
+  replace (amt - (amt - pen)) with pen in * by lia.
+  cbv zeta. repeat split; auto; try lia.
+  destruct (0 <? pen) eqn:E0.
+  - apply burn_penalty_nf in Hs3; red_state; auto; try lia.
+    destruct Hs3 as (b & Hfl & Hbr & ->). exists pen, b. pose proof Hfl as [? ?]. repeat split; auto; try lia; try reflexivity.
+  - apply Z.ltb_ge in E0. assert (pen = 0) by lia. subst pen. inversion Hs3; subst; clear Hs3.
+    exists 0, 0. pose proof MAXPU_pos.
+    split; [exact Hpen|]. split; [lia|]. split; [unfold is_floor; lia|]. split; [lia|]. split; [reflexivity|].
+    apply lst_ext; unfold s_credit, tl_add, credit; red_state; try reflexivity; try lia.
+    all: try (rewrite Z.sub_0_r; reflexivity).
+    apply ghost_ext; red_state; lia.
+Qed.
+
+Lemma ep_reduce_inv b0 s c e amt le s' o :
+  Inv b0 s -> ep_reduce s c e amt le = Ok (s', o) -> Inv b0 s'.
+Proof.
+  intros HI H. pose proof HI as [Io Ic Inn Ieb Iel Iet Ien Itl Isu Iba Ilo Ipo].
+  apply ep_reduce_nf in H; try tauto. cbv zeta in H.
+  set (nu := start_of_month (l_now s + le)) in *. clearbody nu.
+  destruct H as (Hc & Hp & Hl & He & Ha & Hle & Hn & Htl & Hnu & Hnue & pen & b & Hpen & Hpr & Hfl & Hbr & _ & ->).
+  constructor; try assumption.
+  - intros h t. pose proof (Inn h t). pose proof (Inn c e). fin.
+  - fin.
+  - intros e' He'. pose proof (Iel e' He'). fin.
+  - fin.
+  - intros u Hu. pose proof (Itl u Hu). fin.
+  - fin.
+  - fin.
+  - fin.
+  - fin.
+Qed.
+
+(** one iteration of claimUnlockedTokens *)
+Lemma claim_one_nf s c en s' : claim_one s c en = Ok s' ->
+  0 <= c_burn (l_cfg s) <= MAXPU -> en_un en <= en_lk en -> 0 < en_epoch en ->
+  let e := en_epoch en in let un := en_un en in let pen := en_lk en - en_un en in
+  (pen = 0 /\ un <= bal (l_led s) UNSTAKE e /\ un <= bal (l_led s) UNSTAKE 0 /\
+   s' = set_q (set_led (set_g s (g_add_lburn (l_g s) un))
+                       ((c, 0, un) :: (UNSTAKE, 0, - un) :: (UNSTAKE, e, - un) :: l_led s))
+              (q_remove_first (l_q s) c))
+  \/
+  (0 < pen /\ un + pen <= bal (l_led s) UNSTAKE e /\ un <= bal (l_led s) UNSTAKE 0 /\
+   exists b, is_floor b (pen * c_burn (l_cfg s)) MAXPU /\ 0 <= b <= pen /\
+   s' = set_q (set_led (set_fees (set_g s (g_add_penburn (g_add_lburn (g_add_lburn (l_g s) un) pen) b))
+                                 (l_fees s + (pen - b)))
+                       ((c, 0, un) :: (UNSTAKE, 0, - un) :: (UNSTAKE, e, - pen) :: (UNSTAKE, e, - un) :: l_led s))
+              (q_remove_first (l_q s) c)).
+Proof.
+  intros H Hb Hle Hep. cbv zeta. unfold claim_one in H.
+  apply bind_ok in H. destruct H as (s1 & H1 & H). cbv zeta in H.
+  apply bind_ok in H. destruct H as (pen & Hp & H).
+  apply bind_ok in H. destruct H as (s3 & H3 & H).
+  apply bind_ok in H. destruct H as (s4 & H4 & H). inversion H; subst; clear H.
+  apply s_debit_ok in H1. destruct H1 as [L1 ->].
+  apply sub_chk_ok in Hp. destruct Hp as [_ ->].
+  destruct (0 <? en_lk en - en_un en) eqn:E0.
+  - right. apply Z.ltb_lt in E0.
+    apply bind_ok in H3. destruct H3 as (s2 & H2 & H3).
+    apply s_debit_ok in H2. destruct H2 as [L2 ->].
+    apply burn_penalty_nf in H3; red_state; auto; try lia. destruct H3 as (b & Hfl & Hbr & ->).
+    apply s_debit_ok in H4. destruct H4 as [L4 ->]. led_norm.
+    rewrite !Z.eqb_refl in *. cbn [andb] in *.
+    assert (E1 : (en_epoch en =? 0) = (en_epoch en =? 0)) by reflexivity.
+    split; [exact E0|]. split; [lia|].
+    split.
+    { revert L4. destruct (Z.eqb_spec (en_epoch en) 0) as [E|E]; cbn [andb]; intros; lia. }
+    exists b. split; [exact Hfl|]. split; [exact Hbr|]. reflexivity.
+  - left. apply Z.ltb_ge in E0. inversion H3; subst; clear H3.
+    apply s_debit_ok in H4. destruct H4 as [L4 ->]. led_norm.
+    rewrite !Z.eqb_refl in *. cbn [andb] in *.
+    split; [lia|]. split; [lia|]. split.
+    { revert L4. destruct (Z.eqb_spec (en_epoch en) 0) as [E|E]; cbn [andb]; intros; lia. }
+    reflexivity.
+Qed.
+
+Lemma claim_one_inv b0 s c en s' :
+  Inv b0 s -> q_first (l_q s) c = Some en -> claim_one s c en = Ok s' -> Inv b0 s'.
+Proof.
+  intros HI Hq H. pose proof HI as [Io Ic Inn Ieb Iel Iet Ien Itl Isu Iba Ilo Ipo].
+  destruct (q_first_in _ _ _ Hq) as [Hin Hu].
+  assert (Hok : entry_ok en) by (rewrite Forall_forall in Ien; apply Ien; exact Hin).
+  destruct Hok as ((Hun & Hlk) & Hep & Hne). rewrite Hu in Hne.
+  apply claim_one_nf in H; try tauto; try lia. cbv zeta in H.
+  pose proof (qsum_remove en_un _ _ _ Hq) as Q1.
+  pose proof (qsum_remove en_lk _ _ _ Hq) as Q2.
+  assert (Q3 : forall e, qsum (lk_at e) (q_remove_first (l_q s) c) = qsum (lk_at e) (l_q s) - lk_at e en)
+    by (intros e; apply qsum_remove; exact Hq).
+  destruct H as [(Hp0 & B1 & B2 & ->) | (Hp0 & B1 & B2 & b & Hfl & Hbr & ->)].
+  - constructor; try assumption; red_state.
+    + intros h t. pose proof (Inn h t). pose proof (Inn UNSTAKE (en_epoch en)). pose proof (Inn UNSTAKE 0). fin.
+    + rewrite Q1. fin.
+    + intros e' He'. pose proof (Iel e' He'). rewrite Q3. fin.
+    + rewrite Q2. fin.
+    + apply forall_remove. exact Ien.
+    + intros u Hu'. pose proof (Itl u Hu'). fin.
+    + rewrite Q1. fin.
+    + fin.
+    + fin.
+  - constructor; try assumption; red_state.
+    + intros h t. pose proof (Inn h t). pose proof (Inn UNSTAKE (en_epoch en)). pose proof (Inn UNSTAKE 0). fin.
+    + rewrite Q1. fin.
+    + intros e' He'. pose proof (Iel e' He'). rewrite Q3. fin.
+    + rewrite Q2. fin.
+    + apply forall_remove. exact Ien.
+    + intros u Hu'. pose proof (Itl u Hu'). fin.
+    + rewrite Q1. fin.
+    + fin.
+    + fin.
+    + fin.
+Qed.
+
+Lemma claim_loop_inv b0 n : forall s c acc s' o,
+  Inv b0 s -> claim_loop n s c acc = Ok (s', o) -> Inv b0 s'.
+Proof.
+  induction n as [|n IH]; intros s c acc s' o HI H; simpl in H.
+  - inversion H; subst. exact HI.
+  - destruct (q_first (l_q s) c) as [en|] eqn:Eq; [|inversion H; subst; exact HI].
+    destruct (l_now s <? en_release en); [inversion H; subst; exact HI|].
+    apply bind_ok in H. destruct H as (s1 & H1 & H).
+    eapply (IH s1 c); [eapply claim_one_inv; eauto | exact H].
+Qed.
+
+Lemma ep_claim_inv b0 s c s' o : Inv b0 s -> ep_claim s c = Ok (s', o) -> Inv b0 s'.
+Proof.
+  intros HI H. unfold ep_claim in H. case_if H Eu.
+  apply bind_ok in H. destruct H as ([s1 o1] & H1 & H). case_if H En. inversion H; subst; clear H.
+  eapply claim_loop_inv; eauto.
+Qed.
+
+(** one iteration of cancelUnbond *)
+Lemma cancel_one_nf s c en s' : cancel_one s c en = Ok s' ->
+  en_un en <= bal (l_led s) UNSTAKE 0 /\
+  en_lk en <= bal ((UNSTAKE, 0, - en_un en) :: l_led s) UNSTAKE (en_epoch en) /\
+  s' = set_q (set_led (set_g (set_tl s ((c, 0, en_lk en) :: l_tl s)) (g_add_bburn_cancel (l_g s) (en_un en)))
+                      ((c, en_epoch en, en_lk en) :: (UNSTAKE, en_epoch en, - en_lk en) :: (UNSTAKE, 0, - en_un en) :: l_led s))
+             (q_remove_first (l_q s) c).
+Proof.
+  intros H. unfold cancel_one in H. cbv zeta in H.
+  apply bind_ok in H. destruct H as (s2 & H2 & H).
+  apply bind_ok in H. destruct H as (s4 & H4 & H). inversion H; subst; clear H.
+  apply s_debit_ok in H2. destruct H2 as [L2 ->].
+  apply s_debit_ok in H4. destruct H4 as [L4 ->].
+  unfold tl_add, credit in *. red_state. repeat split; auto.
+Qed.
+
+Lemma cancel_one_inv b0 s c en s' :
+  Inv b0 s -> q_first (l_q s) c = Some en -> cancel_one s c en = Ok s' -> Inv b0 s'.
+Proof.
+  intros HI Hq H. pose proof HI as [Io Ic Inn Ieb Iel Iet Ien Itl Isu Iba Ilo Ipo].
+  destruct (q_first_in _ _ _ Hq) as [Hin Hu].
+  assert (Hok : entry_ok en) by (rewrite Forall_forall in Ien; apply Ien; exact Hin).
+  destruct Hok as ((Hun & Hlk) & Hep & Hne). rewrite Hu in Hne.
+  apply cancel_one_nf in H. destruct H as (B1 & B2 & ->).
+  pose proof (qsum_remove en_un _ _ _ Hq) as Q1.
+  pose proof (qsum_remove en_lk _ _ _ Hq) as Q2.
+  assert (Q3 : forall e, qsum (lk_at e) (q_remove_first (l_q s) c) = qsum (lk_at e) (l_q s) - lk_at e en)
+    by (intros e; apply qsum_remove; exact Hq).
+  rewrite bal_cons in B2.
+  assert (B2' : en_lk en <= bal (l_led s) UNSTAKE (en_epoch en)).
+  { revert B2. destruct (Z.eqb_spec 0 (en_epoch en)); rewrite ?Z.eqb_refl; cbn [andb]; intros; lia. }
+  clear B2.
+  constructor; try assumption; red_state.
+  + intros h t. pose proof (Inn h t). pose proof (Inn UNSTAKE (en_epoch en)). pose proof (Inn UNSTAKE 0). fin.
+  + rewrite Q1. fin.
+  + intros e' He'. pose proof (Iel e' He'). rewrite Q3. fin.
+  + rewrite Q2. fin.
+  + apply forall_remove. exact Ien.
+  + intros u Hu'. pose proof (Itl u Hu'). fin.
+  + rewrite Q1. fin.
+  + fin.
+  + fin.
+Qed.
+
+Lemma cancel_loop_inv b0 n : forall s c acc s' o,
+  Inv b0 s -> cancel_loop n s c acc = Ok (s', o) -> Inv b0 s'.
+Proof.
+  induction n as [|n IH]; intros s c acc s' o HI H; simpl in H.
+  - inversion H; subst. exact HI.
+  - destruct (q_first (l_q s) c) as [en|] eqn:Eq; [|inversion H; subst; exact HI].
+    apply bind_ok in H. destruct H as (s1 & H1 & H).
+    eapply (IH s1 c); [eapply cancel_one_inv; eauto | exact H].
+Qed.
+
+Lemma ep_cancel_inv b0 s c s' o : Inv b0 s -> ep_cancel s c = Ok (s', o) -> Inv b0 s'.
+Proof.
+  intros HI H. unfold ep_cancel in H. case_if H Eu. case_if H En.
+  apply bind_ok in H. destruct H as ([s1 o1] & H1 & H). case_if H Ep. inversion H; subst; clear H.
+  eapply cancel_loop_inv; eauto.
+Qed.
+
+(** administration and time *)
+Lemma admin_inv b0 s s' (c' : cfg) :
+  Inv b0 s -> wf_opts (c_opts c') -> 0 <= c_burn c' <= MAXPU -> c_unbond c' = c_unbond (l_cfg s) ->
+  s' = set_cfg s c' -> Inv b0 s'.
+Proof.
+  intros [Io Ic Inn Ieb Iel Iet Ien Itl Isu Iba Ilo Ipo] Hw Hb Hu ->.
+  constructor; try assumption; unfold opts; red_state; try assumption. lia.
+Qed.
+
+Lemma step_inv b0 s op s' o : Inv b0 s -> step s op = Ok (s', o) -> Inv b0 s'.
+Proof.
+  intros HI H. destruct op; simpl in H.
+  - eapply ep_lock_inv; eauto.
+  - eapply ep_extend_inv; eauto.
+  - eapply ep_lock_virtual_inv; eauto.
+  - eapply ep_unlock_inv; eauto.
+  - eapply ep_unlock_early_inv; eauto.
+  - eapply ep_reduce_inv; eauto.
+  - eapply ep_claim_inv; eauto.
+  - eapply ep_cancel_inv; eauto.
+  - unfold ep_add_options in H. case_if H Ec. apply bind_ok in H. destruct H as (l & Hl & H).
+    inversion H; subst; clear H. pose proof HI as [Io Ic _ _ _ _ _ _ _ _ _ _].
+    eapply admin_inv; [exact HI | | | | reflexivity]; red_state.
+    + eapply add_lock_options_wf; [right; exact Io | exact Hl].
+    + tauto.
+    + reflexivity.
+  - unfold ep_set_burn in H. case_if H Ec. case_if H Eb. inversion H; subst; clear H.
+    pose proof HI as [Io Ic _ _ _ _ _ _ _ _ _ _]. prep_bools.
+    eapply admin_inv; [exact HI | | | | reflexivity]; red_state; auto; try lia; try tauto.
+  - unfold ep_set_paused in H. case_if H Ec. inversion H; subst; clear H.
+    pose proof HI as [Io Ic _ _ _ _ _ _ _ _ _ _].
+    eapply admin_inv; [exact HI | | | | reflexivity]; red_state; auto; try lia; try tauto.
+  - unfold ep_advance in H. case_if H Ed. inversion H; subst; clear H. apply Z.leb_le in Ed.
+    destruct HI as [Io Ic Inn Ieb Iel Iet Ien Itl Isu Iba Ilo Ipo].
+    constructor; try assumption; red_state; try assumption. lia.
+Qed.
+
+Lemma step_total_inv b0 s op : Inv b0 s -> Inv b0 (step_total s op).
+Proof.
+  intros HI. unfold step_total. destruct (step s op) as [[s' o]|] eqn:E; [|exact HI].
+  eapply step_inv; eauto.
+Qed.
+
+Lemma run_inv b0 ops : forall s, Inv b0 s -> Inv b0 (run s ops).
+Proof.
+  unfold run. induction ops as [|op t IH]; intros s HI; simpl; [exact HI|].
+  apply IH. apply step_total_inv. exact HI.
+Qed.
+
+Definition funds_total (funds : list (Z * Z)) : Z := fold_right (fun ub acc => snd ub + acc) 0 funds.
+
+Definition init_led (funds : list (Z * Z)) : ledger := map (fun ub => (fst ub, 0, snd ub)) funds.
+
+Lemma init_tot_zero f funds : (forall h, f h 0 = false) -> tot f (init_led funds) = 0.
+Proof.
+  intros Hf. induction funds as [|[u b] r IH]; [reflexivity|].
+  unfold init_led in *. simpl map. rewrite tot_cons, IH, Hf. reflexivity.
+Qed.
+
+Lemma init_tot_base funds : tot is_base (init_led funds) = funds_total funds.
+Proof.
+  induction funds as [|[u b] r IH]; [reflexivity|].
+  unfold init_led in *. simpl map. rewrite tot_cons, IH. reflexivity.
+Qed.
+
+Lemma init_bal_nonneg funds : Forall (fun ub => 0 <= snd ub /\ fst ub <> UNSTAKE) funds ->
+  forall h t, 0 <= bal (init_led funds) h t.
+Proof.
+  intros Hf h t. induction funds as [|[u b] r IH]; [unfold bal; simpl; lia|].
+  inversion Hf as [|? ? [Hb _] Hr]; subst. specialize (IH Hr).
+  unfold init_led in *. simpl map. rewrite bal_cons. simpl in Hb. destruct ((u =? h) && (0 =? t)); lia.
+Qed.
+
+Lemma init_bal_unstake funds : Forall (fun ub => 0 <= snd ub /\ fst ub <> UNSTAKE) funds ->
+  bal (init_led funds) UNSTAKE 0 = 0.
+Proof.
+  intros Hf. induction funds as [|[u b] r IH]; [reflexivity|].
+  inversion Hf as [|? ? [_ Hu] Hr]; subst. specialize (IH Hr).
+  unfold init_led in *. simpl map. rewrite bal_cons, IH. simpl in Hu.
+  destruct (Z.eqb_spec u UNSTAKE); [contradiction | reflexivity].
+Qed.
+
+Lemma init_inv os unbond burn c now funds :
+  init_cfg os unbond burn = Ok c -> 0 <= now -> Forall (fun ub => 0 <= snd ub /\ fst ub <> UNSTAKE) funds ->
+  Inv (funds_total funds) (init_state c now funds).
+Proof.
+  intros H Hn Hf. unfold init_cfg in H. apply bind_ok in H. destruct H as (l & Hl & H).
+  case_if H E1. case_if H E2. inversion H; subst; clear H. prep_bools.
+  unfold init_state. fold (init_led funds).
+  constructor; unfold opts, base_supply, locked_supply, held_locked, tl_of; red_state.
+  - eapply add_lock_options_wf; [left; reflexivity | exact Hl].
+  - lia.
+  - apply init_bal_nonneg. exact Hf.
+  - rewrite init_bal_unstake by exact Hf. reflexivity.
+  - intros e He. unfold bal. rewrite init_tot_zero; [reflexivity|].
+    intros h. destruct (Z.eqb_spec 0 e); [lia | apply andb_false_r].
+  - rewrite init_tot_zero; [reflexivity | intros h; apply andb_false_r].
+  - constructor.
+  - intros u Hu. rewrite init_tot_zero; [reflexivity | intros h; apply andb_false_r].
+  - rewrite init_tot_zero; [simpl; lia | reflexivity].
+  - rewrite init_tot_base. lia.
+  - rewrite init_tot_zero; [simpl; lia | reflexivity].
+  - lia.
+Qed.
+
+(** ================================================================== supply ledger, escrow *)
+Lemma qsum_le f g q : Forall (fun en => f en <= g en) q -> qsum f q <= qsum g q.
+Proof. induction 1; simpl; lia. Qed.
+
+(** base asset minted by the unlock paths never exceeds base asset burned by the lock paths
+    (lockTokens, and cancelUnbond taking an early unlock back) plus LOCKED emitted by lockVirtual *)
+Lemma supply_ledger b0 s : Inv b0 s ->
+  g_bmint (l_g s) <= g_bburn_lock (l_g s) + g_bburn_cancel (l_g s) + g_emit (l_g s) /\
+  base_supply s <= b0 + g_emit (l_g s).
+Proof.
+  intros [Io Ic Inn Ieb Iel Iet Ien Itl Isu Iba Ilo Ipo].
+  assert (H1 : held_locked s UNSTAKE <= locked_supply s).
+  { unfold held_locked, locked_supply. apply tot_le; [exact Inn|].
+    intros h t E. apply andb_prop in E. unfold is_locked. tauto. }
+  assert (H2 : qsum en_un (l_q s) <= qsum en_lk (l_q s)).
+  { apply qsum_le. eapply Forall_impl; [|exact Ien]. intros en (A & _). lia. }
+  lia.
+Qed.
+
+Lemma escrow_backed b0 s : Inv b0 s ->
+  bal (l_led s) UNSTAKE 0 = qsum en_un (l_q s) /\
+  (forall e, 0 < e -> bal (l_led s) UNSTAKE e = qsum (lk_at e) (l_q s)) /\
+  Forall (fun en => 0 < en_un en <= en_lk en) (l_q s).
+Proof.
+  intros [Io Ic Inn Ieb Iel Iet Ien Itl Isu Iba Ilo Ipo]. split; [exact Ieb|]. split; [exact Iel|].
+  eapply Forall_impl; [|exact Ien]. intros en (A & _). exact A.
+Qed.
+
+(** ================================================================== lock *)
+Lemma som_bounds x : start_of_month x <= x < start_of_month x + EPOCHS_PER_MONTH /\
+                     start_of_month x mod EPOCHS_PER_MONTH = 0.
+Proof.
+  pose proof penalty_params as (_ & _ & Hm & _). unfold start_of_month.
+  pose proof (Z.mod_pos_bound x EPOCHS_PER_MONTH Hm). split; [lia|].
+  rewrite Zminus_mod, Zmod_mod, Z.sub_diag. apply Zmod_0_l.
+Qed.
+
+Definition delta (f : Z -> Z -> bool) (h t a : Z) : Z := if f h t then a else 0.
+
+Lemma lock_char s c amt le dest s' o : ep_lock s c amt le dest = Ok (s', o) ->
+  exists unlock,
+    unlock = start_of_month (l_now s + le) /\ is_listed (opts s) le = true /\
+    l_now s < unlock <= l_now s + le /\ l_now s + le < unlock + EPOCHS_PER_MONTH /\ unlock mod EPOCHS_PER_MONTH = 0 /\
+    0 < amt /\ o = [unlock; amt] /\
+    (* the caller's base asset is burned, the destination receives the same amount of LOCKED *)
+    (forall f, tot f (l_led s') = tot f (l_led s) - delta f c 0 amt + delta f dest unlock amt) /\
+    g_bburn_lock (l_g s') = g_bburn_lock (l_g s) + amt /\ g_lmint (l_g s') = g_lmint (l_g s) + amt /\
+    g_bmint (l_g s') = g_bmint (l_g s) /\ g_lburn (l_g s') = g_lburn (l_g s) /\
+    l_q s' = l_q s /\ l_fees s' = l_fees s.
+Proof.
+  intros H. apply ep_lock_nf in H. cbv zeta in H.
+  destruct H as (Hc & Hd & Hp & Hl & Ha & Hle & Hn & -> & ->).
+  exists (start_of_month (l_now s + le)). pose proof (som_bounds (l_now s + le)) as [B1 B2].
+  split; [reflexivity|]. split; [exact Hl|]. split; [lia|]. split; [lia|]. split; [exact B2|].
+  split; [exact Ha|]. split; [reflexivity|]. red_state.
+  split; [intros f; rewrite !tot_cons; unfold delta; destruct (f c 0), (f dest (start_of_month (l_now s + le))); lia|].
+  repeat split; reflexivity.
+Qed.
+
+(** ================================================================== unlock *)
+Definition pay_delta (f : Z -> Z -> bool) (c : Z) (ps : list (Z * Z)) : Z :=
+  fold_right (fun p acc => delta f c 0 (snd p) - delta f c (fst p) (snd p) + acc) 0 ps.
+
+Definition same_frame (s s' : lst) : Prop :=
+  l_cfg s' = l_cfg s /\ l_now s' = l_now s /\ l_q s' = l_q s /\ l_fees s' = l_fees s.
+
+Lemma unlock_all_char ps : forall s c s', unlock_all s c ps = Ok s' ->
+  Forall (fun p => 0 < fst p <= l_now s /\ 0 < snd p) ps /\
+  (forall f, tot f (l_led s') = tot f (l_led s) + pay_delta f c ps) /\
+  tl_of s' c = tl_of s c - pay_total ps /\
+  g_bmint (l_g s') = g_bmint (l_g s) + pay_total ps /\ g_lburn (l_g s') = g_lburn (l_g s) + pay_total ps /\
+  g_lmint (l_g s') = g_lmint (l_g s) /\ g_bburn_lock (l_g s') = g_bburn_lock (l_g s) /\
+  same_frame s s'.
+Proof.
+  induction ps as [|[e amt] t IH]; intros s c s' H; simpl in H.
+  - inversion H; subst. split; [constructor|]. split; [intros; simpl; lia|]. unfold pay_total, same_frame. simpl.
+    repeat split; lia.
+  - apply bind_ok in H. destruct H as (s1 & H1 & H). apply unlock_one_nf in H1.
+    destruct H1 as (He & Ha & Hle & Hn & Htl & ->). apply IH in H. clear IH. red_state.
+    destruct H as (HF & Ht & Htl' & G1 & G2 & G3 & G4 & (F1 & F2 & F3 & F4)). red_state.
+    split; [constructor; [simpl; lia | exact HF]|].
+    split; [intros f; rewrite Ht, !tot_cons; unfold pay_delta; cbn [fold_right fst snd]; unfold delta; destruct (f c 0), (f c e); lia|].
+    unfold pay_total in *. cbn [fold_right snd]. unfold tl_of in *. red_state. rewrite bal_cons in Htl'.
+    rewrite !Z.eqb_refl in Htl'. cbn [andb] in Htl'.
+    unfold same_frame. red_state. repeat split; auto; lia.
+Qed.
+
+Lemma unlock_char s c ps s' o : ep_unlock s c ps = Ok (s', o) ->
+  c <> UNSTAKE /\ paused s = false /\ ps <> [] /\
+  (* time lock: every payment has reached its unlock epoch *)
+  Forall (fun p => 0 < fst p <= l_now s /\ 0 < snd p) ps /\
+  (* 1:1 *)
+  o = [pay_total ps] /\
+  (forall f, tot f (l_led s') = tot f (l_led s) + pay_delta f c ps) /\
+  g_bmint (l_g s') = g_bmint (l_g s) + pay_total ps /\ g_lburn (l_g s') = g_lburn (l_g s) + pay_total ps /\
+  same_frame s s'.
+Proof.
+  intros H. unfold ep_unlock in H. case_if H Eu. case_if H Ep. case_if H En.
+  apply bind_ok in H. destruct H as (s1 & H1 & H). inversion H; subst; clear H.
+  apply unlock_all_char in H1. prep_bools.
+  destruct H1 as (HF & Ht & _ & G1 & G2 & _ & _ & Hfr).
+  split; [exact Eu|]. split; [exact Ep|]. split; [destruct ps; [discriminate | discriminate]|].
+  repeat split; auto; apply Hfr.
+Qed.
+
+(** a payment that has not reached its unlock epoch makes unlockTokens fail *)
+Lemma unlock_guard s c ps e amt : In (e, amt) ps -> l_now s < e -> is_ok (ep_unlock s c ps) = false.
+Proof.
+  intros Hin Hlt. destruct (ep_unlock s c ps) as [[s' o]|] eqn:E; [|reflexivity].
+  apply unlock_char in E. destruct E as (_ & _ & _ & HF & _).
+  rewrite Forall_forall in HF. specialize (HF _ Hin). simpl in HF. lia.
+Qed.
+
+(** at or after the unlock epoch, unlocking what one holds succeeds and pays 1:1 *)
+Lemma unlock_live b0 s c e amt : Inv b0 s -> c <> UNSTAKE -> paused s = false ->
+  0 < e <= l_now s -> 0 < amt <= bal (l_led s) c e ->
+  exists s', ep_unlock s c [(e, amt)] = Ok (s', [amt]) /\ bal (l_led s') c 0 = bal (l_led s) c 0 + amt.
+Proof.
+  intros HI Hc Hp He Ha. pose proof HI as [Io Ic Inn Ieb Iel Iet Ien Itl Isu Iba Ilo Ipo].
+  assert (Htl : amt <= tl_of s c).
+  { rewrite (Itl c Hc). unfold held_locked.
+    assert (Hle : bal (l_led s) c e <= tot (fun h' t => (h' =? c) && (0 <? t)) (l_led s)).
+    { unfold bal. apply tot_le; [exact Inn|]. intros h t E. apply andb_prop in E. destruct E as [E1 E2].
+      apply Z.eqb_eq in E2. subst t. rewrite E1. simpl. apply Z.ltb_lt. lia. }
+    lia. }
+  unfold ep_unlock, is_user. destruct (Z.eqb_spec c UNSTAKE); [contradiction|]. rewrite Hp. simpl.
+  unfold unlock_one, s_debit, debit.
+  assert (E1 : (0 <? e) && (0 <? amt) = true) by (apply andb_true_intro; split; apply Z.ltb_lt; lia).
+  assert (E2 : (amt <=? bal (l_led s) c e) = true) by (apply Z.leb_le; lia).
+  assert (E3 : (e <=? l_now s) = true) by (apply Z.leb_le; lia).
+  rewrite E1, E2. cbn [bind]. red_state. rewrite E3. unfold tl_sub, sub_chk.
+  unfold tl_of in *. red_state.
+  assert (E4 : (bal (l_tl s) c 0 <? amt) = false) by (apply Z.ltb_ge; lia). rewrite E4. cbn [bind].
+  eexists. split.
+  - unfold pay_total. simpl. replace (amt + 0) with amt by lia. reflexivity.
+  - led_norm. rewrite !Z.eqb_refl. destruct (Z.eqb_spec e 0); [lia|]. cbn [andb]. lia.
+Qed.
+
+(** ================================================================== early unlock *)
+Lemma penalty_amount_full l amt x pen : penalty_amount l amt x 0 = Ok pen ->
+  exists pct, pct_full l x = Ok pct /\ pen = amt * pct / MAXP.
+Proof.
+  unfold penalty_amount, penalty_pct. intros H. apply bind_ok in H. destruct H as (pct & Hp & H).
+  inversion H; subst; clear H. case_if Hp E1. cbv iota in Hp. rewrite Z.eqb_refl in Hp. eauto.
+Qed.
+
+Lemma penalty_amount_partial l amt x y pen : y <> 0 -> penalty_amount l amt x y = Ok pen ->
+  exists pct, pct_partial l x y = Ok pct /\ pen = amt * pct / MAXP.
+Proof.
+  unfold penalty_amount, penalty_pct. intros Hy H. apply bind_ok in H. destruct H as (pct & Hp & H).
+  inversion H; subst; clear H. case_if Hp E1. case_if Hp E2.
+  destruct (Z.eqb_spec y 0); [contradiction|]. eauto.
+Qed.
+
+Lemma unlock_early_char b0 s c e amt s' o : Inv b0 s -> ep_unlock_early s c e amt = Ok (s', o) ->
+  exists pct pen,
+    c <> UNSTAKE /\ l_now s < e /\ 0 < amt /\
+    (* the documented penalty for the remaining time *)
+    pct_full (opts s) (e - l_now s) = Ok pct /\ 0 <= pct <= MAXP /\
+    is_floor pen (amt * pct) MAXP /\ 0 <= pen < amt /\
+    (* nothing is released now: payment and remainder are parked in the unstake contract *)
+    o = [] /\
+    l_q s' = l_q s ++ [mkE c (l_now s + c_unbond (l_cfg s)) e amt (amt - pen)] /\
+    (forall f, tot f (l_led s') = tot f (l_led s) - delta f c e amt + delta f UNSTAKE e amt + delta f UNSTAKE 0 (amt - pen)) /\
+    bal (l_led s') c 0 = bal (l_led s) c 0 /\
+    g_bmint (l_g s') = g_bmint (l_g s) + (amt - pen) /\ g_lburn (l_g s') = g_lburn (l_g s) /\
+    g_lmint (l_g s') = g_lmint (l_g s) /\ l_fees s' = l_fees s /\ l_cfg s' = l_cfg s /\ l_now s' = l_now s.
+Proof.
+  intros HI H. apply ep_unlock_early_nf in H.
+  destruct H as (Hc & Hp & He & Ha & Hle & Hn & Htl & -> & pen & Hpen & Hlt & ->).
+  pose proof HI as [Io Ic Inn Ieb Iel Iet Ien Itl Isu Iba Ilo Ipo].
+  destruct (pen_amount (opts s) amt (e - l_now s) 0 pen Io ltac:(lia) ltac:(lia) Hpen) as (pct & Hpct & Hr & Hfl & Hpr & _).
+  destruct (penalty_amount_full _ _ _ _ Hpen) as (pct' & Hpf & _).
+  assert (pct' = pct).
+  { unfold penalty_pct in Hpct. case_if Hpct E1. cbv iota in Hpct. rewrite Z.eqb_refl in Hpct. congruence. }
+  subst pct'.
+  exists pct, pen. red_state.
+  split; [exact Hc|]. split; [exact Hn|]. split; [exact Ha|]. split; [exact Hpf|]. split; [exact Hr|].
+  split; [exact Hfl|]. split; [lia|]. split; [reflexivity|]. split; [reflexivity|].
+  split; [intros f; rewrite !tot_cons; unfold delta; destruct (f c e), (f UNSTAKE e), (f UNSTAKE 0); lia|].
+  split.
+  { rewrite !bal_cons. destruct (Z.eqb_spec UNSTAKE c); [congruence|]. destruct (Z.eqb_spec e 0); [lia|].
+    cbn [andb]. rewrite Z.eqb_refl. cbn [andb]. lia. }
+  repeat split; reflexivity.
+Qed.
+
+(** ================================================================== split of the penalty *)
+Lemma split_char burn pen b rest : split_penalty burn pen = Ok (b, rest) -> 0 <= burn <= MAXPU -> 0 <= pen ->
+  is_floor b (pen * burn) MAXPU /\ rest = pen - b /\ 0 <= b <= pen /\ 0 <= rest.
+Proof.
+  intros H Hb Hp. unfold split_penalty in H. cbv zeta in H. apply bind_ok in H. destruct H as (r & Hr & H).
+  inversion H; subst; clear H. apply sub_chk_ok in Hr. destruct Hr as [Hle ->].
+  pose proof MAXPU_pos as HM. split; [apply is_floor_div; exact HM|]. split; [reflexivity|].
+  split; [split; [apply div_nonneg; nia | exact Hle] | lia].
+Qed.
+
+(** for valid arguments the split never fails *)
+Lemma split_total burn pen : 0 <= burn <= MAXPU -> 0 <= pen ->
+  split_penalty burn pen = Ok (pen * burn / MAXPU, pen - pen * burn / MAXPU).
+Proof.
+  intros Hb Hp. unfold split_penalty. cbv zeta. unfold sub_chk.
+  pose proof (split_le pen burn Hp Hb).
+  assert (E : (pen <? pen * burn / MAXPU) = false) by (apply Z.ltb_ge; lia). rewrite E. reflexivity.
+Qed.
+
+(** ================================================================== reduce *)
+Lemma reduce_char b0 s c e amt le s' o : Inv b0 s -> ep_reduce s c e amt le = Ok (s', o) ->
+  exists nu po pn pct pen b,
+    c <> UNSTAKE /\ is_listed (opts s) le = true /\ 0 < amt /\
+    nu = start_of_month (l_now s + le) /\ l_now s < nu < e /\
+    (* (p_old - p_new) / (1 - p_new) in basis points, then floor(amount * p / MAXP) *)
+    pct_full (opts s) (e - l_now s) = Ok po /\ pct_full (opts s) (nu - l_now s) = Ok pn /\
+    0 <= pn <= po /\ po <= MAXP /\ pn < MAXP /\
+    is_floor pct ((po - pn) * MAXP) (MAXP - pn) /\ 0 <= pct <= MAXP /\
+    is_floor pen (amt * pct) MAXP /\ 0 <= pen < amt /\
+    (* the penalty is split at once: [b] burned, the rest to the fees collector *)
+    is_floor b (pen * c_burn (l_cfg s)) MAXPU /\ 0 <= b <= pen /\
+    l_fees s' = l_fees s + (pen - b) /\ g_penburn (l_g s') = g_penburn (l_g s) + b /\
+    (* the caller gets amount - penalty LOCKED with the shorter period; no base asset appears *)
+    o = [nu; amt - pen] /\
+    (forall f, tot f (l_led s') = tot f (l_led s) - delta f c e amt + delta f c nu (amt - pen)) /\
+    g_bmint (l_g s') = g_bmint (l_g s) /\ g_lmint (l_g s') = g_lmint (l_g s) + (amt - pen) /\
+    g_lburn (l_g s') = g_lburn (l_g s) + amt /\ l_q s' = l_q s /\ l_cfg s' = l_cfg s /\ l_now s' = l_now s.
+Proof.
+  intros HI H. pose proof HI as [Io Ic Inn Ieb Iel Iet Ien Itl Isu Iba Ilo Ipo].
+  apply ep_reduce_nf in H; try tauto. cbv zeta in H.
+  set (nu := start_of_month (l_now s + le)) in *.
+  destruct H as (Hc & Hp & Hl & He & Ha & Hle & Hn & Htl & Hnu & Hnue & pen & b & Hpen & Hpr & Hfl & Hbr & -> & ->).
+  assert (Hy : nu - l_now s <> 0) by lia.
+  destruct (penalty_amount_partial _ _ _ _ _ Hy Hpen) as (pct & Hpp & Hpe).
+  pose proof penalty_params as (HM & _ & Hm & Hmy).
+  assert (Hel : e - l_now s <= e_last (opts s)).
+  { destruct (Z_le_gt_dec (e - l_now s) (e_last (opts s))) as [A|A]; [exact A|].
+    pose proof (pen_fails_beyond (opts s) (e - l_now s) ltac:(lia)) as Hf.
+    unfold pct_partial in Hpp. destruct (pct_full (opts s) (e - l_now s)); [discriminate | cbn [bind] in Hpp; discriminate]. }
+  destruct (pen_partial (opts s) (e - l_now s) (nu - l_now s) Io ltac:(lia) ltac:(lia) Hel)
+    as (po & pn & q & Hpo & Hpn & R1 & R2 & R3 & Hq & Hqf & Hqr).
+  rewrite Hpp in Hq. inversion Hq; subst q; clear Hq.
+  exists nu, po, pn, pct, pen, b. red_state.
+  split; [exact Hc|]. split; [exact Hl|]. split; [exact Ha|]. split; [reflexivity|]. split; [lia|].
+  split; [exact Hpo|]. split; [exact Hpn|]. split; [exact R1|]. split; [exact R2|]. split; [exact R3|].
+  split; [exact Hqf|]. split; [exact Hqr|]. split; [rewrite Hpe; apply is_floor_div; exact HM|]. split; [exact Hpr|].
+  split; [exact Hfl|]. split; [exact Hbr|]. split; [reflexivity|]. split; [reflexivity|]. split; [reflexivity|].
+  split; [intros f; rewrite !tot_cons; unfold delta; destruct (f c e), (f c nu); lia|].
+  repeat split; try reflexivity. lia.
+Qed.
+
+(** ================================================================== per-user queues *)
+Lemma q_first_view q c : q_first q c = hd_error (filter (fun en => en_user en =? c) q).
+Proof. induction q as [|a t IH]; simpl; [reflexivity|]. destruct (en_user a =? c); [reflexivity | exact IH]. Qed.
+
+Lemma view_remove_same q c :
+  filter (fun en => en_user en =? c) (q_remove_first q c) = tl (filter (fun en => en_user en =? c) q).
+Proof.
+  induction q as [|a t IH]; simpl; [reflexivity|]. destruct (en_user a =? c) eqn:E; [reflexivity|].
+  simpl. rewrite E. exact IH.
+Qed.
+
+Lemma view_remove_other q c u : u <> c ->
+  filter (fun en => en_user en =? u) (q_remove_first q c) = filter (fun en => en_user en =? u) q.
+Proof.
+  intros Hne. induction q as [|a t IH]; simpl; [reflexivity|]. destruct (en_user a =? c) eqn:E.
+  - apply Z.eqb_eq in E. destruct (Z.eqb_spec (en_user a) u); [congruence | reflexivity].
+  - simpl. rewrite IH. reflexivity.
+Qed.
+
+(** ================================================================== claim *)
+Definition pen_of (en : uentry) : Z := en_lk en - en_un en.
+Definition burn_of (burn : Z) (en : uentry) : Z := pen_of en * burn / MAXPU.
+(** ledger effect of paying one entry of user c: the remainder leaves the escrow for the user, the
+    LOCKED tokens of the entry leave the escrow (burned, or burned by the collector) *)
+Definition pay_entry (f : Z -> Z -> bool) (c : Z) (en : uentry) : Z :=
+  delta f c 0 (en_un en) - delta f UNSTAKE 0 (en_un en) - delta f UNSTAKE (en_epoch en) (en_lk en).
+
+Record claim_frame (s s' : lst) : Prop := {
+  cf_cfg : l_cfg s' = l_cfg s; cf_now : l_now s' = l_now s; cf_tl : l_tl s' = l_tl s;
+  cf_bmint : g_bmint (l_g s') = g_bmint (l_g s); cf_lmint : g_lmint (l_g s') = g_lmint (l_g s);
+  cf_bl : g_bburn_lock (l_g s') = g_bburn_lock (l_g s); cf_bc : g_bburn_cancel (l_g s') = g_bburn_cancel (l_g s);
+  cf_emit : g_emit (l_g s') = g_emit (l_g s)
+}.
+
+Lemma claim_one_char s c en s' : claim_one s c en = Ok s' ->
+  0 <= c_burn (l_cfg s) <= MAXPU -> en_un en <= en_lk en -> 0 < en_epoch en ->
+  claim_frame s s' /\ l_q s' = q_remove_first (l_q s) c /\
+  (forall f, tot f (l_led s') = tot f (l_led s) + pay_entry f c en) /\
+  l_fees s' = l_fees s + (pen_of en - burn_of (c_burn (l_cfg s)) en) /\
+  g_penburn (l_g s') = g_penburn (l_g s) + burn_of (c_burn (l_cfg s)) en /\
+  g_lburn (l_g s') = g_lburn (l_g s) + en_lk en.
+Proof.
+  intros H Hb Hle Hep. apply claim_one_nf in H; auto. cbv zeta in H. pose proof MAXPU_pos as HM.
+  unfold burn_of, pen_of, pay_entry.
+  destruct H as [(Hp0 & B1 & B2 & ->) | (Hp0 & B1 & B2 & b & Hfl & Hbr & ->)]; red_state.
+  - rewrite Hp0. rewrite Z.mul_0_l, Z.div_0_l by lia.
+    split; [constructor; reflexivity|]. split; [reflexivity|].
+    split; [intros f; rewrite !tot_cons; unfold delta; replace (en_lk en) with (en_un en) by lia;
+            destruct (f c 0), (f UNSTAKE 0), (f UNSTAKE (en_epoch en)); lia|].
+    repeat split; lia.
+  - apply is_floor_unique in Hfl; [|exact HM]. subst b.
+    split; [constructor; reflexivity|]. split; [reflexivity|].
+    split; [intros f; rewrite !tot_cons; unfold delta;
+            destruct (f c 0), (f UNSTAKE 0), (f UNSTAKE (en_epoch en)); lia|].
+    repeat split; lia.
+Qed.
+
+(** the entries claimUnlockedTokens pays: from the front of the caller's queue, at most n, stopping
+    at the first one whose unbond period has not ended *)
+Fixpoint claimable (n : nat) (now : Z) (q : list uentry) : list uentry :=
+  match n with
+  | O => []
+  | S n' => match q with
+            | [] => []
+            | en :: t => if now <? en_release en then [] else en :: claimable n' now t
+            end
+  end.
+
+Lemma claimable_spec n now : forall q,
+  let paid := claimable n now q in
+  paid = firstn (length paid) q /\ (length paid <= n)%nat /\
+  Forall (fun en => en_release en <= now) paid /\
+  ((length paid < n)%nat -> match nth_error q (length paid) with Some en => now < en_release en | None => True end).
+Proof.
+  induction n as [|n IH]; intros q; cbv zeta; simpl.
+  - split; [reflexivity|]. split; [lia|]. split; [constructor | lia].
+  - destruct q as [|en t]; simpl; [split; [reflexivity|]; split; [lia|]; split; [constructor | auto]|].
+    destruct (now <? en_release en) eqn:E; simpl.
+    + apply Z.ltb_lt in E. split; [reflexivity|]. split; [lia|]. split; [constructor | auto].
+    + apply Z.ltb_ge in E. specialize (IH t). cbv zeta in IH. destruct IH as (A & B & C & D).
+      split; [f_equal; exact A|]. split; [lia|]. split; [constructor; assumption|].
+      intros Hlt. apply D. lia.
+Qed.
+
+Lemma frame_trans s1 s2 s3 : claim_frame s1 s2 -> claim_frame s2 s3 -> claim_frame s1 s3.
+Proof. intros [] []. constructor; congruence. Qed.
+
+Lemma frame_refl s : claim_frame s s.
+Proof. constructor; reflexivity. Qed.
+
+Definition uview (s : lst) (c : Z) : list uentry := view_queue s c.
+
+Lemma claim_loop_char b0 n : forall s c acc s' o,
+  Inv b0 s -> claim_loop n s c acc = Ok (s', o) ->
+  let paid := claimable n (l_now s) (view_queue s c) in
+  let burn := c_burn (l_cfg s) in
+  o = acc ++ map en_un paid /\
+  view_queue s' c = skipn (length paid) (view_queue s c) /\
+  (forall u, u <> c -> view_queue s' u = view_queue s u) /\
+  (forall f, tot f (l_led s') = tot f (l_led s) + qsum (pay_entry f c) paid) /\
+  l_fees s' = l_fees s + qsum (fun en => pen_of en - burn_of burn en) paid /\
+  g_penburn (l_g s') = g_penburn (l_g s) + qsum (burn_of burn) paid /\
+  g_lburn (l_g s') = g_lburn (l_g s) + qsum en_lk paid /\
+  claim_frame s s'.
+Proof.
+  induction n as [|n IH]; intros s c acc s' o HI H; cbv zeta; simpl in H.
+  - inversion H; subst. simpl. rewrite app_nil_r. repeat split; try lia; auto using frame_refl.
+  - unfold view_queue in *. rewrite q_first_view in H. simpl claimable.
+    destruct (filter (fun en => en_user en =? c) (l_q s)) as [|en t] eqn:Eq; simpl in H.
+    + inversion H; subst. simpl. rewrite app_nil_r, Eq. repeat split; try lia; auto using frame_refl.
+    + destruct (l_now s <? en_release en) eqn:Er.
+      * inversion H; subst. simpl. rewrite app_nil_r, Eq. repeat split; try lia; auto using frame_refl.
+      * apply bind_ok in H. destruct H as (s1 & H1 & H).
+        assert (Hq : q_first (l_q s) c = Some en) by (rewrite q_first_view, Eq; reflexivity).
+        pose proof (claim_one_inv b0 s c en s1 HI Hq H1) as HI1.
+        pose proof HI as [Io Ic Inn Ieb Iel Iet Ien Itl Isu Iba Ilo Ipo].
+        destruct (q_first_in _ _ _ Hq) as [Hin Hu].
+        assert (Hok : entry_ok en) by (rewrite Forall_forall in Ien; apply Ien; exact Hin).
+        destruct Hok as ((Hun & Hlk) & Hep & Hne).
+        apply claim_one_char in H1; try tauto; try lia.
+        destruct H1 as (Hfr & Hq1 & Ht1 & Hf1 & Hp1 & Hl1).
+        specialize (IH s1 c _ s' o HI1 H). cbv zeta in IH. unfold view_queue in IH.
+        pose proof Hfr as [Fc Fn _ _ _ _ _ _].
+        rewrite Hq1, view_remove_same, Eq, Fn, Fc in IH. simpl tl in IH.
+        destruct IH as (A & B & C & D & E & F & G & Hfr2).
+        split; [rewrite A, <- app_assoc; reflexivity|].
+        split; [exact B|].
+        split; [intros u Hu'; rewrite (C u Hu'); apply view_remove_other; exact Hu'|].
+        split; [intros f; rewrite D, Ht1; simpl; lia|].
+        simpl qsum. split; [lia|]. split; [lia|]. split; [lia|].
+        eapply frame_trans; eauto.
+Qed.
+
+Lemma claim_char b0 s c s' o : Inv b0 s -> ep_claim s c = Ok (s', o) ->
+  let paid := claimable (Z.to_nat MAX_CLAIM_UNLOCKED_TOKENS) (l_now s) (view_queue s c) in
+  let burn := c_burn (l_cfg s) in
+  c <> UNSTAKE /\ paid <> [] /\
+  (* only entries whose unbond period has ended, oldest first, each exactly once *)
+  paid = firstn (length paid) (view_queue s c) /\
+  Forall (fun en => en_release en <= l_now s) paid /\
+  o = map en_un paid /\
+  view_queue s' c = skipn (length paid) (view_queue s c) /\
+  (forall u, u <> c -> view_queue s' u = view_queue s u) /\
+  (* the caller receives amount - penalty of every paid entry out of the escrow *)
+  (forall f, tot f (l_led s') = tot f (l_led s) + qsum (pay_entry f c) paid) /\
+  (* each entry's penalty is split: floor(pen * burn / MAXPU) burned, the rest to the fees collector *)
+  l_fees s' = l_fees s + qsum (fun en => pen_of en - burn_of burn en) paid /\
+  g_penburn (l_g s') = g_penburn (l_g s) + qsum (burn_of burn) paid /\
+  g_lburn (l_g s') = g_lburn (l_g s) + qsum en_lk paid /\
+  claim_frame s s'.
+Proof.
+  intros HI H. unfold ep_claim in H. case_if H Eu.
+  apply bind_ok in H. destruct H as ([s1 o1] & H1 & H). case_if H En. inversion H; subst; clear H.
+  apply (claim_loop_char b0) in H1; [|exact HI]. cbv zeta in H1 |- *.
+  destruct H1 as (A & B & C & D & E & F & G & Hfr). cbn [app] in A.
+  pose proof (claimable_spec (Z.to_nat MAX_CLAIM_UNLOCKED_TOKENS) (l_now s) (view_queue s c)) as (S1 & S2 & S3 & S4).
+  prep_bools.
+  split; [exact Eu|]. split; [intros E0; rewrite E0 in A; subst o; discriminate|].
+  split; [exact S1|]. split; [exact S3|]. split; [exact A|]. split; [exact B|]. split; [exact C|].
+  split; [exact D|]. split; [exact E|]. split; [exact F|]. split; [exact G|]. exact Hfr.
+Qed.
+
+(** before the unbond period of the oldest entry has ended nothing can be claimed *)
+Lemma claim_too_early s c en t : view_queue s c = en :: t -> l_now s < en_release en ->
+  is_ok (ep_claim s c) = false.
+Proof.
+  intros Hq Hlt. unfold ep_claim. destruct (is_user c); [|reflexivity].
+  destruct (Z.to_nat MAX_CLAIM_UNLOCKED_TOKENS) as [|n]; [reflexivity|].
+  simpl. unfold view_queue in Hq. rewrite q_first_view, Hq. simpl.
+  assert (E : (l_now s <? en_release en) = true) by (apply Z.ltb_lt; exact Hlt). rewrite E. reflexivity.
+Qed.
+
+(** ================================================================== cancel *)
+Definition cancel_entry (f : Z -> Z -> bool) (c : Z) (en : uentry) : Z :=
+  delta f c (en_epoch en) (en_lk en) - delta f UNSTAKE (en_epoch en) (en_lk en) - delta f UNSTAKE 0 (en_un en).
+
+Lemma cancel_one_char s c en s' : cancel_one s c en = Ok s' ->
+  l_cfg s' = l_cfg s /\ l_now s' = l_now s /\ l_fees s' = l_fees s /\
+  l_q s' = q_remove_first (l_q s) c /\
+  (forall f, tot f (l_led s') = tot f (l_led s) + cancel_entry f c en) /\
+  g_bburn_cancel (l_g s') = g_bburn_cancel (l_g s) + en_un en /\
+  g_bmint (l_g s') = g_bmint (l_g s) /\ g_lburn (l_g s') = g_lburn (l_g s) /\ g_lmint (l_g s') = g_lmint (l_g s) /\
+  g_penburn (l_g s') = g_penburn (l_g s).
+Proof.
+  intros H. apply cancel_one_nf in H. destruct H as (_ & _ & ->). red_state.
+  repeat split; try reflexivity.
+  intros f. rewrite !tot_cons. unfold cancel_entry, delta.
+  destruct (f c (en_epoch en)), (f UNSTAKE (en_epoch en)), (f UNSTAKE 0); lia.
+Qed.
+
+Lemma cancel_loop_char b0 n : forall s c acc s' o,
+  Inv b0 s -> cancel_loop n s c acc = Ok (s', o) ->
+  let mine := firstn n (view_queue s c) in
+  o = acc ++ flat_map (fun en => [en_epoch en; en_lk en]) mine /\
+  view_queue s' c = skipn n (view_queue s c) /\
+  (forall u, u <> c -> view_queue s' u = view_queue s u) /\
+  (forall f, tot f (l_led s') = tot f (l_led s) + qsum (cancel_entry f c) mine) /\
+  g_bburn_cancel (l_g s') = g_bburn_cancel (l_g s) + qsum en_un mine /\
+  g_bmint (l_g s') = g_bmint (l_g s) /\ g_lburn (l_g s') = g_lburn (l_g s) /\ g_lmint (l_g s') = g_lmint (l_g s) /\
+  l_fees s' = l_fees s /\ l_cfg s' = l_cfg s /\ l_now s' = l_now s.
+Proof.
+  induction n as [|n IH]; intros s c acc s' o HI H; cbv zeta; simpl in H.
+  - inversion H; subst. simpl. rewrite app_nil_r. repeat split; try lia; auto.
+  - unfold view_queue in *. rewrite q_first_view in H.
+    destruct (filter (fun en => en_user en =? c) (l_q s)) as [|en t] eqn:Eq; simpl in H.
+    + inversion H; subst. simpl. rewrite app_nil_r, Eq. repeat split; try lia; auto.
+    + apply bind_ok in H. destruct H as (s1 & H1 & H).
+      assert (Hq : q_first (l_q s) c = Some en) by (rewrite q_first_view, Eq; reflexivity).
+      pose proof (cancel_one_inv b0 s c en s1 HI Hq H1) as HI1.
+      apply cancel_one_char in H1. destruct H1 as (Fc & Fn & Ff & Hq1 & Ht1 & G1 & G2 & G3 & G4 & G5).
+      specialize (IH s1 c _ s' o HI1 H). cbv zeta in IH. unfold view_queue in IH.
+      rewrite Hq1, view_remove_same, Eq in IH. simpl tl in IH.
+      destruct IH as (A & B & C & D & E1 & E2 & E3 & E4 & E5 & E6 & E7).
+      simpl firstn. simpl skipn. simpl flat_map. simpl qsum.
+      split; [rewrite A, <- app_assoc; reflexivity|].
+      split; [exact B|].
+      split; [intros u Hu'; rewrite (C u Hu'); apply view_remove_other; exact Hu'|].
+      split; [intros f; rewrite D, Ht1; lia|].
+      repeat split; try lia; congruence.
+Qed.
+
+Lemma cancel_char b0 s c s' o : Inv b0 s -> ep_cancel s c = Ok (s', o) ->
+  let mine := view_queue s c in
+  c <> UNSTAKE /\ paused s = false /\ mine <> [] /\
+  (* every entry of the caller, whatever its age: LOCKED returned in full, the parked base asset burned *)
+  o = flat_map (fun en => [en_epoch en; en_lk en]) mine /\
+  view_queue s' c = [] /\
+  (forall u, u <> c -> view_queue s' u = view_queue s u) /\
+  (forall f, tot f (l_led s') = tot f (l_led s) + qsum (cancel_entry f c) mine) /\
+  g_bburn_cancel (l_g s') = g_bburn_cancel (l_g s) + qsum en_un mine /\
+  g_bmint (l_g s') = g_bmint (l_g s) /\ g_lburn (l_g s') = g_lburn (l_g s) /\ g_lmint (l_g s') = g_lmint (l_g s) /\
+  l_fees s' = l_fees s /\ l_cfg s' = l_cfg s /\ l_now s' = l_now s.
+Proof.
+  intros HI H. unfold ep_cancel in H. case_if H Eu. case_if H En.
+  apply bind_ok in H. destruct H as ([s1 o1] & H1 & H). case_if H Ep. inversion H; subst; clear H.
+  apply (cancel_loop_char b0) in H1; [|exact HI]. cbv zeta in H1 |- *.
+  assert (Hlen : (length (view_queue s c) <= length (l_q s))%nat) by (unfold view_queue; apply filter_length_le).
+  rewrite firstn_all2 in H1 by exact Hlen. rewrite skipn_all2 in H1 by exact Hlen.
+  destruct H1 as (A & B & C & D & E1 & E2 & E3 & E4 & E5 & E6 & E7). cbn [app] in A. prep_bools.
+  split; [exact Eu|]. split; [exact Ep|].
+  split; [unfold view_queue; rewrite q_first_view in En; destruct (filter _ (l_q s)); [discriminate | discriminate]|].
+  repeat split; auto.
+Qed.
+
+Lemma qsum_cons f (a : uentry) t : qsum f (a :: t) = f a + qsum f t.
+Proof. reflexivity. Qed.
+
+Definition key (h t : Z) : Z -> Z -> bool := fun h' t' => (h' =? h) && (t' =? t).
+
+Lemma bal_key L h t : bal L h t = tot (key h t) L.
+Proof. reflexivity. Qed.
+
+Lemma key_true h t h' t' : key h t h' t' = true -> h' = h /\ t' = t.
+Proof. unfold key. intros E. apply andb_prop in E. destruct E as [A B]. apply Z.eqb_eq in A, B. auto. Qed.
+
+Lemma delta_key_cases h t h' t' a : delta (key h t) h' t' a = 0 \/ (h' = h /\ t' = t /\ delta (key h t) h' t' a = a).
+Proof. unfold delta. destruct (key h t h' t') eqn:E; [right; apply key_true in E; tauto | left; reflexivity]. Qed.
+
+Lemma delta_key_ne h t h' t' a : (h' <> h \/ t' <> t) -> delta (key h t) h' t' a = 0.
+Proof. intros Hne. destruct (delta_key_cases h t h' t' a) as [E|(A & B & _)]; [exact E | tauto]. Qed.
+
+(** ================================================================== who can take LOCKED out of an account early *)
+Lemma pay_delta_locked h e c ps : 0 < e -> Forall (fun p => 0 < fst p /\ fst p < e /\ 0 < snd p) ps ->
+  pay_delta (key h e) c ps = 0.
+Proof.
+  intros He HF. induction HF as [|[e' a] t (A & B & C) _ IH]; [reflexivity|].
+  unfold pay_delta in *. cbn [fold_right fst snd] in *. rewrite IH.
+  rewrite (delta_key_ne h e c 0) by (right; lia). rewrite (delta_key_ne h e c e') by (right; lia). lia.
+Qed.
+
+(** Before its unlock epoch, a LOCKED position of a user can shrink only through the two penalty
+    paths (unlockEarly, reduceLockPeriod) or by being re-locked for longer 1:1 (lockTokens paying
+    LOCKED) — never through unlockTokens or any other operation. *)
+Theorem early_exit_only_by_penalty b0 s op s' o h e :
+  Inv b0 s -> step s op = Ok (s', o) -> h <> UNSTAKE -> l_now s < e ->
+  bal (l_led s') h e < bal (l_led s) h e ->
+  exists amt, op = UnlockEarly h e amt \/ (exists le, op = Reduce h e amt le) \/ (exists le, op = Extend h e amt le).
+Proof.
+  intros HI H Hh He Hlt. pose proof HI as [Io Ic Inn Ieb Iel Iet Ien Itl Isu Iba Ilo Ipo].
+  assert (He0 : 0 < e) by lia. rewrite !bal_key in Hlt.
+  destruct op; simpl in H.
+  - apply lock_char in H. destruct H as (u & _ & _ & Hu & _ & _ & Ha & _ & Ht & _). rewrite Ht in Hlt.
+    rewrite (delta_key_ne h e c 0) in Hlt by (right; lia).
+    destruct (delta_key_cases h e dest u amt) as [E|(_ & _ & E)]; rewrite E in Hlt; lia.
+  - apply ep_extend_nf in H. cbv zeta in H. destruct H as (_ & _ & _ & _ & Ha & _ & _ & _ & _ & _ & ->).
+    red_state. rewrite !tot_cons in Hlt. fold (delta (key h e) c e0 (- amt)) in Hlt.
+    fold (delta (key h e) c (start_of_month (l_now s + le)) amt) in Hlt.
+    destruct (delta_key_cases h e c e0 (- amt)) as [E|(A & B & E)].
+    + rewrite E in Hlt. destruct (delta_key_cases h e c (start_of_month (l_now s + le)) amt) as [E2|(_ & _ & E2)]; rewrite E2 in Hlt; lia.
+    + subst c e0. exists amt. right. right. exists le. reflexivity.
+  - apply ep_lock_virtual_nf in H. cbv zeta in H. destruct H as (_ & _ & _ & Ha & _ & _ & _ & ->).
+    red_state. rewrite !tot_cons in Hlt. fold (delta (key h e) dest (start_of_month (l_now s + le)) amt) in Hlt.
+    destruct (delta_key_cases h e dest (start_of_month (l_now s + le)) amt) as [E2|(_ & _ & E2)]; rewrite E2 in Hlt; lia.
+  - apply unlock_char in H. destruct H as (_ & _ & _ & HF & _ & Ht & _). rewrite Ht in Hlt.
+    rewrite pay_delta_locked in Hlt; [lia | exact He0 |].
+    eapply Forall_impl; [|exact HF]. intros p (A & B). lia.
+  - apply (unlock_early_char b0) in H; [|exact HI].
+    destruct H as (pct & pen & _ & _ & Ha & _ & _ & _ & Hp & _ & _ & Ht & _). rewrite Ht in Hlt.
+    rewrite (delta_key_ne h e UNSTAKE e0) in Hlt by (left; congruence).
+    rewrite (delta_key_ne h e UNSTAKE 0) in Hlt by (left; congruence).
+    destruct (delta_key_cases h e c e0 amt) as [E|(A & B & E)]; [rewrite E in Hlt; lia|].
+    subst c e0. exists amt. left. reflexivity.
+  - apply (reduce_char b0) in H; [|exact HI].
+    destruct H as (nu & po & pn & pct & pen & b & _ & _ & Ha & _ & _ & _ & _ & _ & _ & _ & _ & _ & _ & Hp & _ & _ & _ & _ & _ & Ht & _).
+    rewrite Ht in Hlt.
+    destruct (delta_key_cases h e c e0 amt) as [E|(A & B & E)].
+    + rewrite E in Hlt. destruct (delta_key_cases h e c nu (amt - pen)) as [E2|(_ & _ & E2)]; rewrite E2 in Hlt; lia.
+    + subst c e0. exists amt. right. left. exists le. reflexivity.
+  - apply (claim_char b0) in H; [|exact HI]. cbv zeta in H.
+    destruct H as (_ & _ & _ & _ & _ & _ & _ & Ht & _). rewrite Ht in Hlt.
+    assert (Z0 : forall l, qsum (pay_entry (key h e) c) l = 0).
+    { induction l as [|en t IH]; [reflexivity|]. rewrite qsum_cons, IH. unfold pay_entry.
+      rewrite (delta_key_ne h e c 0) by (right; lia).
+      rewrite (delta_key_ne h e UNSTAKE 0) by (left; congruence).
+      rewrite (delta_key_ne h e UNSTAKE (en_epoch en)) by (left; congruence). lia. }
+    rewrite Z0 in Hlt. lia.
+  - apply (cancel_char b0) in H; [|exact HI]. cbv zeta in H.
+    destruct H as (_ & _ & _ & _ & _ & _ & Ht & _). rewrite Ht in Hlt.
+    assert (Z0 : forall l, Forall entry_ok l -> 0 <= qsum (cancel_entry (key h e) c) l).
+    { induction 1 as [|en t ((A & B) & _) _ IH]; [simpl; lia|]. rewrite qsum_cons. unfold cancel_entry in *.
+      rewrite (delta_key_ne h e UNSTAKE 0) by (left; congruence).
+      rewrite (delta_key_ne h e UNSTAKE (en_epoch en)) by (left; congruence).
+      destruct (delta_key_cases h e c (en_epoch en) (en_lk en)) as [E|(_ & _ & E)]; rewrite E; lia. }
+    assert (Hm : Forall entry_ok (view_queue s c)).
+    { unfold view_queue. rewrite Forall_forall in *. intros en Hin. apply filter_In in Hin. apply Ien. tauto. }
+    specialize (Z0 _ Hm). lia.
+  - unfold ep_add_options in H. case_if H Ec. apply bind_ok in H. destruct H as (l & _ & H). inversion H; subst. red_state. lia.
+  - unfold ep_set_burn in H. case_if H Ec. case_if H Eb. inversion H; subst. red_state. lia.
+  - unfold ep_set_paused in H. case_if H Ec. inversion H; subst. red_state. lia.
+  - unfold ep_advance in H. case_if H Ed. inversion H; subst. red_state. lia.
+Qed.
+
+(** ================================================================== who can credit base asset to a user *)
+Lemma pay_delta_base_other h c ps : c <> h -> pay_delta (key h 0) c ps = 0.
+Proof.
+  intros Hne. induction ps as [|[e a] t IH]; [reflexivity|]. unfold pay_delta in *. cbn [fold_right fst snd] in *.
+  rewrite IH. rewrite !(delta_key_ne h 0 c) by (left; exact Hne). lia.
+Qed.
+
+(** A user's base-asset balance grows only through unlockTokens (tokens past their unlock epoch,
+    1:1) or claimUnlockedTokens (entries past their unbond period, amount - penalty). *)
+Theorem base_credit_only_by_unlock_or_claim b0 s op s' o h :
+  Inv b0 s -> step s op = Ok (s', o) -> h <> UNSTAKE ->
+  bal (l_led s) h 0 < bal (l_led s') h 0 ->
+  (exists ps, op = Unlock h ps) \/ op = Claim h.
+Proof.
+  intros HI H Hh Hlt. pose proof HI as [Io Ic Inn Ieb Iel Iet Ien Itl Isu Iba Ilo Ipo].
+  rewrite !bal_key in Hlt.
+  destruct op; simpl in H.
+  - apply lock_char in H. destruct H as (u & _ & _ & Hu & _ & _ & Ha & _ & Ht & _). rewrite Ht in Hlt.
+    rewrite (delta_key_ne h 0 dest u) in Hlt by (right; lia).
+    destruct (delta_key_cases h 0 c 0 amt) as [E|(_ & _ & E)]; rewrite E in Hlt; lia.
+  - apply ep_extend_nf in H. cbv zeta in H. destruct H as (_ & _ & _ & He0 & Ha & _ & Hn & _ & _ & _ & ->).
+    red_state. rewrite !tot_cons in Hlt. fold (delta (key h 0) c e (- amt)) in Hlt.
+    fold (delta (key h 0) c (start_of_month (l_now s + le)) amt) in Hlt.
+    rewrite (delta_key_ne h 0 c e) in Hlt by (right; lia).
+    rewrite (delta_key_ne h 0 c (start_of_month (l_now s + le))) in Hlt by (right; lia). lia.
+  - apply ep_lock_virtual_nf in H. cbv zeta in H. destruct H as (_ & _ & _ & Ha & _ & Hn & _ & ->).
+    red_state. rewrite !tot_cons in Hlt. fold (delta (key h 0) dest (start_of_month (l_now s + le)) amt) in Hlt.
+    rewrite (delta_key_ne h 0 dest (start_of_month (l_now s + le))) in Hlt by (right; lia). lia.
+  - destruct (Z.eq_dec c h) as [->|Hne]; [left; eauto|].
+    apply unlock_char in H. destruct H as (_ & _ & _ & _ & _ & Ht & _). rewrite Ht in Hlt.
+    rewrite pay_delta_base_other in Hlt by exact Hne. lia.
+  - apply (unlock_early_char b0) in H; [|exact HI].
+    destruct H as (pct & pen & _ & Hn & Ha & _ & _ & _ & Hp & _ & _ & Ht & _). rewrite Ht in Hlt.
+    rewrite (delta_key_ne h 0 UNSTAKE e) in Hlt by (left; congruence).
+    rewrite (delta_key_ne h 0 UNSTAKE 0) in Hlt by (left; congruence).
+    rewrite (delta_key_ne h 0 c e) in Hlt by (right; lia). lia.
+  - apply (reduce_char b0) in H; [|exact HI].
+    destruct H as (nu & po & pn & pct & pen & b & _ & _ & Ha & _ & Hnu & _ & _ & _ & _ & _ & _ & _ & _ & Hp & _ & _ & _ & _ & _ & Ht & _).
+    rewrite Ht in Hlt.
+    rewrite (delta_key_ne h 0 c e) in Hlt by (right; lia).
+    rewrite (delta_key_ne h 0 c nu) in Hlt by (right; lia). lia.
+  - destruct (Z.eq_dec c h) as [->|Hne]; [right; reflexivity|].
+    apply (claim_char b0) in H; [|exact HI]. cbv zeta in H.
+    destruct H as (_ & _ & _ & _ & _ & _ & _ & Ht & _). rewrite Ht in Hlt.
+    assert (Z0 : forall l, qsum (pay_entry (key h 0) c) l = 0).
+    { induction l as [|en t IH]; [reflexivity|]. rewrite qsum_cons, IH. unfold pay_entry.
+      rewrite (delta_key_ne h 0 c 0) by (left; exact Hne).
+      rewrite (delta_key_ne h 0 UNSTAKE 0) by (left; congruence).
+      rewrite (delta_key_ne h 0 UNSTAKE (en_epoch en)) by (left; congruence). lia. }
+    rewrite Z0 in Hlt. lia.
+  - apply (cancel_char b0) in H; [|exact HI]. cbv zeta in H.
+    destruct H as (_ & _ & _ & _ & _ & _ & Ht & _). rewrite Ht in Hlt.
+    assert (Z0 : forall l, Forall entry_ok l -> qsum (cancel_entry (key h 0) c) l = 0).
+    { induction 1 as [|en t (_ & B & _) _ IH]; [reflexivity|]. rewrite qsum_cons, IH. unfold cancel_entry.
+      rewrite (delta_key_ne h 0 UNSTAKE 0) by (left; congruence).
+      rewrite (delta_key_ne h 0 UNSTAKE (en_epoch en)) by (left; congruence).
+      rewrite (delta_key_ne h 0 c (en_epoch en)) by (right; lia). lia. }
+    assert (Hm : Forall entry_ok (view_queue s c)).
+    { unfold view_queue. rewrite Forall_forall in *. intros en Hin. apply filter_In in Hin. apply Ien. tauto. }
+    rewrite (Z0 _ Hm) in Hlt. lia.
+  - unfold ep_add_options in H. case_if H Ec. apply bind_ok in H. destruct H as (l & _ & H). inversion H; subst. red_state. lia.
+  - unfold ep_set_burn in H. case_if H Ec. case_if H Eb. inversion H; subst. red_state. lia.
+  - unfold ep_set_paused in H. case_if H Ec. inversion H; subst. red_state. lia.
+  - unfold ep_advance in H. case_if H Ed. inversion H; subst. red_state. lia.
+Qed.
+
